@@ -201,3 +201,1572 @@ Proof.
     + apply lget_push_link.
     + destruct (decide _) as [Heq|_]; [|reflexivity]. inversion Heq; subst. rewrite app_nil_r. reflexivity.
 Qed.
+
+(* ================================================================================================
+   Part 2: well-formedness
+   ================================================================================================ *)
+
+Lemma wf_nodup s : vwf s -> NoDup (vconn s).
+Proof. intros (H & _). exact H. Qed.
+Lemma wf_host s : vwf s -> host ∉ vconn s.
+Proof. intros (_ & H & _). exact H. Qed.
+Lemma wf_link s a b : vwf s -> link s a b <> [] -> (a = host /\ b ∈ vconn s) \/ (b = host /\ a ∈ vconn s).
+Proof. intros (_ & _ & _ & H). apply H. Qed.
+Lemma wf_link_nil s a b : vwf s -> a ∉ vconn s -> b ∉ vconn s -> link s a b = [].
+Proof.
+  intros Hwf Ha Hb. destruct (link s a b) eqn:Hl; [reflexivity|].
+  destruct (wf_link s a b Hwf) as [[_ H]|[_ H]]; [rewrite Hl; discriminate|contradiction|contradiction].
+Qed.
+
+Lemma step_wf s e s' : vwf s -> vstep s e = Some s' -> vwf s'.
+Proof.
+  intros Hwf Hstep. pose proof Hwf as (Hnd & Hh & Hex & Hlk). destruct e as [p v|p|p|src dst|c].
+  - apply step_write in Hstep as (_ & Hc & Hl & He & _).
+    unfold vwf, link. rewrite Hc, Hl. repeat split; try assumption.
+    + intros H. apply Hex, He, H. + intros H. apply He, Hex, H.
+  - apply step_detect in Hstep as (_ & Hc & Hl & He & _).
+    unfold vwf, link. rewrite Hc, Hl. repeat split; try assumption.
+    + intros H. apply Hex, He, H. + intros H. apply He, Hex, H.
+  - apply step_send in Hstep as (Hp & Hc & He & _ & _ & Hl); [|exact Hnd].
+    unfold vwf. rewrite Hc. repeat split; try assumption.
+    + intros H. apply Hex, He, H. + intros H. apply He, Hex, H.
+    + intros a b. rewrite Hl. destruct (decide (a = p /\ b ∈ dsts_of s p)) as [[-> Hin]|_]; [|apply Hlk].
+      intros _. unfold dsts_of in Hin. destruct (p =? host)%N eqn:Hph.
+      * apply N.eqb_eq in Hph. left. auto.
+      * apply N.eqb_neq in Hph. apply elem_of_list_singleton in Hin. right. split; [exact Hin|].
+        apply Hex in Hp as [Hp|Hp]; [contradiction|exact Hp].
+  - apply step_deliver in Hstep as (v & rest & Hl0 & Hd & Hc & He & _ & Hcase); [|exact Hnd].
+    unfold vwf. rewrite Hc. repeat split; try assumption.
+    + intros H. apply Hex, He, H. + intros H. apply He, Hex, H.
+    + intros a b. destruct Hcase as [(_ & _ & Hl)|(_ & _ & Hl)]; rewrite Hl.
+      * destruct (decide ((a, b) = (src, dst))) as [Heq|_]; [|apply Hlk].
+        inversion Heq; subst. intros _. apply Hlk. rewrite Hl0. discriminate.
+      * destruct (decide (dst = host /\ a = host /\ b ∈ others src (vconn s))) as [(_ & -> & Hin)|_].
+        -- intros _. left. split; [reflexivity|]. apply elem_of_others in Hin. tauto.
+        -- rewrite app_nil_r. destruct (decide ((a, b) = (src, dst))) as [Heq|_]; [|apply Hlk].
+           inversion Heq; subst. intros _. apply Hlk. rewrite Hl0. discriminate.
+  - apply step_join in Hstep as (Hc0 & Hcn & Hnone & Hc & He & _ & Hl).
+    unfold vwf. rewrite Hc. split; [|split; [|split]].
+    + apply NoDup_app. split; [exact Hnd|]. split; [|apply NoDup_singleton].
+      intros x Hx Hx'. apply elem_of_list_singleton in Hx'. subst. contradiction.
+    + intros H. apply elem_of_app in H as [H|H]; [contradiction|]. apply elem_of_list_singleton in H. congruence.
+    + intros q. rewrite He, Hex. rewrite elem_of_app, elem_of_list_singleton. tauto.
+    + intros a b. rewrite Hl. rewrite elem_of_app, elem_of_app, !elem_of_list_singleton.
+      destruct (decide ((a, b) = (host, c))) as [Heq|_].
+      * inversion Heq; subst. intros _. left. auto.
+      * intros H. apply Hlk in H. tauto.
+Qed.
+
+Lemma run_wf s tr s' : vwf s -> vrun s tr = Some s' -> vwf s'.
+Proof.
+  revert s. induction tr as [|e tr IH]; intros s Hwf Hrun; simpl in Hrun.
+  - congruence.
+  - destruct (vstep s e) as [s1|] eqn:Hs; [|discriminate]. eapply IH; [|exact Hrun]. eapply step_wf; eauto.
+Qed.
+
+Lemma elem_of_clients n p : p ∈ clients n <-> (1 <= p <= N.of_nat n).
+Proof.
+  unfold clients. rewrite elem_of_list_fmap. split.
+  - intros (k & -> & Hk). apply elem_of_seq in Hk. lia.
+  - intros H. exists (N.to_nat p). split; [lia|]. apply elem_of_seq. lia.
+Qed.
+
+Lemma NoDup_clients n : NoDup (clients n).
+Proof. unfold clients. apply NoDup_fmap_2; [intros a b; lia|apply NoDup_seq]. Qed.
+
+Lemma vinit_getp n p : getp (vinit n) p = vpeer0.
+Proof.
+  unfold getp. destruct (vp (vinit n) !! p) as [x|] eqn:Hx; [|reflexivity]. simpl.
+  unfold vinit in Hx; cbn [vp] in Hx. apply elem_of_list_to_map_2 in Hx. apply elem_of_list_fmap in Hx as (q & Heq & _). congruence.
+Qed.
+
+Lemma vinit_link n a b : link (vinit n) a b = [].
+Proof. reflexivity. Qed.
+
+Lemma vinit_wf n : vwf (vinit n).
+Proof.
+  unfold vwf. split; [apply NoDup_clients|]. split; [|split].
+  - simpl. rewrite elem_of_clients. unfold host. lia.
+  - intros p. unfold vinit; cbn [vp].
+    set (l := (fun p => (p, vpeer0)) <$> host :: clients n).
+    assert (Hfst : l.*1 = host :: clients n).
+    { unfold l. rewrite <- list_fmap_compose. simpl. f_equal. induction (clients n); simpl; congruence. }
+    split.
+    + intros [x Hx]. apply elem_of_list_to_map_2 in Hx. apply (elem_of_list_fmap_1 fst) in Hx.
+      rewrite Hfst in Hx. simpl in Hx. apply elem_of_cons in Hx. exact Hx.
+    + intros Hp. destruct (list_to_map l !! p) eqn:Hx; [eauto|].
+      apply not_elem_of_list_to_map in Hx. rewrite Hfst in Hx. exfalso. apply Hx. apply elem_of_cons. exact Hp.
+  - intros a b H. exfalso. apply H. reflexivity.
+Qed.
+
+Lemma vinit_quiescent n : vquiescent (vinit n).
+Proof.
+  split; [apply map_Forall_empty|].
+  intros p x Hx. unfold vinit in Hx; cbn [vp] in Hx. apply elem_of_list_to_map_2 in Hx. apply elem_of_list_fmap in Hx as (q & Heq & _).
+  inversion Heq; subst. repeat split.
+Qed.
+
+(* quiescence through getters *)
+Lemma quiescent_link s a b : vquiescent s -> link s a b = [].
+Proof.
+  intros [H _]. unfold link, lget. destruct (vlinks s !! (a, b)) as [l|] eqn:Hl; [|reflexivity]. simpl. eapply H. exact Hl.
+Qed.
+Lemma quiescent_peer s p : vquiescent s -> poutq s p = [] /\ pdirty s p = false /\ ptoken s p = false.
+Proof.
+  intros [_ H]. unfold poutq, pdirty, ptoken, getp. destruct (vp s !! p) as [x|] eqn:Hx; simpl; [|auto].
+  apply (H p x Hx).
+Qed.
+Lemma quiescent_intro s :
+  (forall a b, link s a b = []) -> (forall p, poutq s p = [] /\ pdirty s p = false /\ ptoken s p = false) -> vquiescent s.
+Proof.
+  intros Hl Hp. split.
+  - intros [a b] l Hx. specialize (Hl a b). unfold link, lget in Hl. rewrite Hx in Hl. exact Hl.
+  - intros p x Hx. specialize (Hp p). unfold poutq, pdirty, ptoken, getp in Hp. rewrite Hx in Hp. exact Hp.
+Qed.
+
+(* ================================================================================================
+   Part 3: token / queue discipline of a single-writer phase
+   [Disc w s]: only w has pending local changes or queued announcements, nothing travels towards w,
+   the uplinks of the other clients are empty.  Preserved by every event except a write by another
+   peer and the join of w itself.
+   ================================================================================================ *)
+
+Record Disc (w : peer) (s : vstate) : Prop := {
+  disc_idle : forall p, p <> w -> pdirty s p = false /\ poutq s p = [];
+  disc_token : ptoken s w = false;
+  disc_in : forall c, link s c w = [];
+  disc_up : forall c, c <> w -> link s c host = []
+}.
+
+Definition ev_ok (w : peer) (e : vevent) : Prop :=
+  match e with VWrite p _ => p = w | VJoin c => c <> w | _ => True end.
+
+Lemma detect'_idle x : dirty x = false -> outq x = [] -> dirty (detect' x) = false /\ outq (detect' x) = [].
+Proof.
+  intros Hd Ho. unfold detect', vdetect. rewrite Hd. simpl. destruct (token x) eqn:Ht; simpl; auto.
+Qed.
+Lemma detect'_token x : token x = false -> token (detect' x) = false.
+Proof. intros Ht. unfold detect', vdetect. rewrite Ht. destruct (dirty x || false); simpl; auto. Qed.
+
+Lemma disc_step w s e s' : vwf s -> Disc w s -> ev_ok w e -> vstep s e = Some s' -> Disc w s'.
+Proof.
+  intros Hwf [HA HB HC HU] Hok Hstep. destruct e as [p v|p|p|src dst|c]; simpl in Hok.
+  - subst p. apply step_write in Hstep as (_ & _ & Hl & _ & Hp & Hq).
+    split; unfold pdirty, poutq, ptoken, link in *.
+    + intros p Hne. rewrite Hq by exact Hne. apply HA, Hne.
+    + rewrite Hp. simpl. exact HB.
+    + intros c. rewrite Hl. apply HC.
+    + intros c Hne. rewrite Hl. apply HU, Hne.
+  - apply step_detect in Hstep as (_ & _ & Hl & _ & Hp & Hq).
+    split; unfold pdirty, poutq, ptoken, link in *.
+    + intros q Hne. destruct (decide (q = p)) as [->|Hqp].
+      * rewrite Hp. destruct (HA p Hne). apply detect'_idle; assumption.
+      * rewrite Hq by exact Hqp. apply HA, Hne.
+    + destruct (decide (w = p)) as [->|Hwp].
+      * rewrite Hp. apply detect'_token, HB.
+      * rewrite Hq by exact Hwp. exact HB.
+    + intros c. rewrite Hl. apply HC.
+    + intros c Hne. rewrite Hl. apply HU, Hne.
+  - apply step_send in Hstep as (Hex & _ & _ & Hp & Hq & Hl); [|apply wf_nodup, Hwf].
+    destruct (decide (p = w)) as [->|Hpw].
+    + split; unfold pdirty, poutq, ptoken in *.
+      * intros q Hne. rewrite Hq by exact Hne. apply HA, Hne.
+      * rewrite Hp. simpl. exact HB.
+      * intros c. rewrite Hl. destruct (decide (c = w /\ w ∈ dsts_of s w)) as [[-> Hin]|_]; [|apply HC].
+        exfalso. unfold dsts_of in Hin. destruct (w =? host)%N eqn:Hwh.
+        -- apply N.eqb_eq in Hwh. subst. apply (wf_host s Hwf Hin).
+        -- apply N.eqb_neq in Hwh. apply elem_of_list_singleton in Hin. contradiction.
+      * intros c Hne. rewrite Hl. destruct (decide (c = w /\ _)) as [[Hcw _]|_]; [contradiction|apply HU, Hne].
+    + destruct (HA p Hpw) as [Hd Ho].
+      assert (Hl' : forall a b, link s' a b = link s a b).
+      { intros a b. rewrite Hl. unfold poutq in Ho. unfold poutq. rewrite Ho, app_nil_r. destruct (decide _); reflexivity. }
+      split; unfold pdirty, poutq, ptoken in *.
+      * intros q Hne. destruct (decide (q = p)) as [->|Hqp].
+        -- rewrite Hp. simpl. auto.
+        -- rewrite Hq by exact Hqp. apply HA, Hne.
+      * rewrite Hq by congruence. exact HB.
+      * intros c. rewrite Hl'. apply HC.
+      * intros c Hne. rewrite Hl'. apply HU, Hne.
+  - apply step_deliver in Hstep as (v & rest & Hl0 & _ & Hcn & _ & Hq & Hcase); [|apply wf_nodup, Hwf].
+    assert (Hdw : dst <> w). { intros ->. rewrite HC in Hl0. discriminate. }
+    assert (Hsrc : dst = host -> src = w).
+    { intros ->. destruct (decide (src = w)) as [|Hne]; [assumption|]. rewrite HU in Hl0 by exact Hne. discriminate. }
+    assert (Hold : forall a b, (a, b) = (src, dst) -> link s a b <> []).
+    { intros a b Heq. inversion Heq; subst. rewrite Hl0. discriminate. }
+    split; unfold pdirty, poutq, ptoken in *.
+    + intros q Hne. destruct (decide (q = dst)) as [->|Hqd].
+      * destruct (HA dst Hne) as [Hd Ho]. destruct Hcase as [(_ & Hp & _)|(_ & Hp & _)]; rewrite Hp; simpl; auto.
+      * rewrite Hq by exact Hqd. apply HA, Hne.
+    + rewrite Hq by congruence. exact HB.
+    + intros c. destruct Hcase as [(_ & _ & Hl)|(_ & _ & Hl)]; rewrite Hl.
+      * destruct (decide ((c, w) = (src, dst))) as [Heq|_]; [|apply HC]. inversion Heq; subst. contradiction.
+      * destruct (decide ((c, w) = (src, dst))) as [Heq|_]; [inversion Heq; subst; contradiction|].
+        rewrite HC. simpl.
+        destruct (decide (dst = host /\ c = host /\ w ∈ others src (vconn s))) as [(Hd & _ & Hin)|_]; [|reflexivity].
+        apply elem_of_others in Hin as [Hne _]. exfalso. apply Hne. symmetry. apply Hsrc, Hd.
+    + intros c Hne. destruct Hcase as [(_ & _ & Hl)|(_ & _ & Hl)]; rewrite Hl.
+      * destruct (decide ((c, host) = (src, dst))) as [Heq|_]; [|apply HU, Hne].
+        exfalso. apply (Hold _ _ Heq). apply HU, Hne.
+      * destruct (decide ((c, host) = (src, dst))) as [Heq|_].
+        -- exfalso. apply (Hold _ _ Heq). apply HU, Hne.
+        -- rewrite HU by exact Hne. simpl.
+           destruct (decide (dst = host /\ c = host /\ host ∈ others src (vconn s))) as [(_ & _ & Hin)|_]; [|reflexivity].
+           apply elem_of_others in Hin as [_ Hin]. exfalso. apply (wf_host s Hwf Hin).
+  - apply step_join in Hstep as (Hch & Hcn & _ & _ & _ & Hq & Hl).
+    split; unfold pdirty, poutq, ptoken in *.
+    + intros q Hne. rewrite Hq. apply HA, Hne.
+    + rewrite Hq. exact HB.
+    + intros a. rewrite Hl. destruct (decide ((a, w) = (host, c))) as [Heq|_]; [|apply HC].
+      inversion Heq; subst. contradiction.
+    + intros a Hne. rewrite Hl. destruct (decide ((a, host) = (host, c))) as [Heq|_]; [|apply HU, Hne].
+      inversion Heq; subst. contradiction.
+Qed.
+
+Lemma quiescent_disc w s : vquiescent s -> Disc w s.
+Proof.
+  intros Hq. split.
+  - intros p _. destruct (quiescent_peer s p Hq) as (? & ? & ?). auto.
+  - apply (quiescent_peer s w Hq).
+  - intros c. apply quiescent_link, Hq.
+  - intros c _. apply quiescent_link, Hq.
+Qed.
+
+(* ================================================================================================
+   Part 4: convergence chains of a single-writer phase
+   [lastd d l]: the value a peer displaying d ends with after applying l in order.
+   ================================================================================================ *)
+
+Definition lastd (d : option value) (l : list value) : option value := foldl (fun _ v => Some v) d l.
+
+Lemma lastd_nil d : lastd d [] = d.
+Proof. reflexivity. Qed.
+Lemma lastd_cons d v l : lastd d (v :: l) = lastd (Some v) l.
+Proof. reflexivity. Qed.
+Lemma lastd_app d l1 l2 : lastd d (l1 ++ l2) = lastd (lastd d l1) l2.
+Proof. unfold lastd. apply foldl_app. Qed.
+Lemma lastd_snoc d l v : lastd d (l ++ [v]) = Some v.
+Proof. rewrite lastd_app. reflexivity. Qed.
+Lemma lastd_last d l : lastd d l = match last l with Some v => Some v | None => d end.
+Proof.
+  revert d. induction l as [|v l IH]; intros d; [reflexivity|]. rewrite lastd_cons, IH.
+  destruct l as [|v0 l]; [reflexivity|]. change (last (v :: v0 :: l)) with (last (v0 :: l)).
+  destruct (last (v0 :: l)) eqn:E; [reflexivity|]. apply last_None in E. discriminate.
+Qed.
+
+Record Conv (w : peer) (s : vstate) : Prop := {
+  conv_h1 : w = host -> pdirty s host = false -> forall c, c ∈ vconn s ->
+            lastd (pcur s c) (link s host c ++ poutq s host) = pcur s host;
+  conv_h2 : w = host -> pdirty s host = false -> lastd (pcur s host) (poutq s host) = pcur s host;
+  conv_k1 : w <> host -> pdirty s w = false -> lastd (pcur s host) (link s w host ++ poutq s w) = pcur s w;
+  conv_k2 : w <> host -> forall c, c ∈ vconn s -> c <> w -> lastd (pcur s c) (link s host c) = pcur s host;
+  conv_n : pdirty s w = true -> is_Some (pcur s w)
+}.
+
+Definition Phase (w : peer) (s : vstate) : Prop := Disc w s /\ Conv w s.
+
+Definition writes_by (w : peer) (e : vevent) : Prop := match e with VWrite p _ => p = w | _ => True end.
+
+Lemma getp_none s p : vp s !! p = None -> getp s p = vpeer0.
+Proof. intros H. unfold getp. rewrite H. reflexivity. Qed.
+
+Lemma detect'_cur x : cur (detect' x) = cur x.
+Proof. unfold detect', vdetect. destruct (dirty x || token x), (token x); reflexivity. Qed.
+Lemma detect'_clean x : dirty x = false -> dirty (detect' x) = false /\ outq (detect' x) = outq x.
+Proof. intros H. unfold detect', vdetect. rewrite H. simpl. destruct (token x); auto. Qed.
+Lemma detect'_dirty x : dirty x = true -> token x = false ->
+  dirty (detect' x) = false /\ outq (detect' x) = outq x ++ match cur x with Some v => [v] | None => [] end.
+Proof. intros H Ht. unfold detect', vdetect. rewrite H, Ht. simpl. auto. Qed.
+
+Lemma lastd_snapshot s : lastd None (snapshot s) = pcur s host.
+Proof. unfold snapshot. destruct (pcur s host); reflexivity. Qed.
+
+(* where a deliverable message can be, in a single-writer phase *)
+Lemma deliver_shape w s src dst :
+  vwf s -> Disc w s -> link s src dst <> [] ->
+  dst <> w /\ ((w = host /\ src = host /\ dst ∈ vconn s) \/
+               (w <> host /\ src = w /\ dst = host) \/
+               (w <> host /\ src = host /\ dst ∈ vconn s)).
+Proof.
+  intros Hwf HD Hl.
+  assert (Hdw : dst <> w). { intros ->. apply Hl. apply (disc_in _ _ HD). }
+  split; [exact Hdw|].
+  destruct (wf_link s src dst Hwf Hl) as [[-> Hin]|[-> Hin]].
+  - destruct (decide (w = host)); [left|right; right]; auto.
+  - right; left. split; [congruence|]. split; [|reflexivity].
+    destruct (decide (src = w)) as [|Hne]; [assumption|]. exfalso. apply Hl. apply (disc_up _ _ HD). exact Hne.
+Qed.
+
+Lemma conv_write w s v s' : Conv w s -> vstep s (VWrite w v) = Some s' -> Conv w s'.
+Proof.
+  intros HC Hstep. apply step_write in Hstep as (_ & Hcn & Hl & _ & Hp & Hq).
+  assert (Hd : pdirty s' w = true) by (unfold pdirty; rewrite Hp; reflexivity).
+  split; unfold link; rewrite ?Hl, ?Hcn.
+  - intros -> Hd'. congruence.
+  - intros -> Hd'. congruence.
+  - intros _ Hd'. congruence.
+  - intros Hwh c Hc Hcw. unfold pcur. rewrite !Hq by congruence. apply (conv_k2 _ _ HC); assumption.
+  - intros _. unfold pcur. rewrite Hp. simpl. eauto.
+Qed.
+
+Lemma conv_detect w s p s' : Disc w s -> Conv w s -> vstep s (VDetect p) = Some s' -> Conv w s'.
+Proof.
+  intros HD HC Hstep. apply step_detect in Hstep as (_ & Hcn & Hl & _ & Hp & Hq).
+  assert (Hcur : forall q, pcur s' q = pcur s q).
+  { intros q. unfold pcur. destruct (decide (q = p)) as [->|Hne]; [rewrite Hp; apply detect'_cur|rewrite Hq by exact Hne; reflexivity]. }
+  assert (Hlk : forall a b, link s' a b = link s a b) by (intros; unfold link; rewrite Hl; reflexivity).
+  destruct (decide (p = w)) as [->|Hpw].
+  - (* the writer's detector *)
+    assert (Hoth : forall q, q <> w -> getp s' q = getp s q) by exact Hq.
+    destruct (pdirty s w) eqn:Hdw.
+    + destruct (conv_n _ _ HC Hdw) as [v Hv].
+      destruct (detect'_dirty (getp s w) Hdw (disc_token _ _ HD)) as [Hd' Ho'].
+      fold (pcur s w) in Ho'. rewrite Hv in Ho'. rewrite <- Hp in Hd', Ho'.
+      fold (pdirty s' w) in Hd'. fold (poutq s' w) in Ho'. fold (poutq s w) in Ho'.
+      split; rewrite ?Hcn.
+      * intros -> _ c Hc. rewrite Hlk, Ho', Hcur, app_assoc, lastd_snoc, Hcur. symmetry. exact Hv.
+      * intros -> _. rewrite Ho', lastd_snoc, Hcur. symmetry. exact Hv.
+      * intros _ _. rewrite Hlk, Ho', app_assoc, lastd_snoc, Hcur. symmetry. exact Hv.
+      * intros Hwh c Hc Hcw. rewrite Hlk, !Hcur. apply (conv_k2 _ _ HC); assumption.
+      * intros Hx. congruence.
+    + destruct (detect'_clean (getp s w) Hdw) as [Hd' Ho']. rewrite <- Hp in Hd', Ho'.
+      fold (pdirty s' w) in Hd'. fold (poutq s' w) in Ho'. fold (poutq s w) in Ho'.
+      split; rewrite ?Hcn.
+      * intros -> _ c Hc. rewrite Hlk, Ho', !Hcur. apply (conv_h1 _ _ HC); auto.
+      * intros -> _. rewrite Ho', !Hcur. apply (conv_h2 _ _ HC); auto.
+      * intros Hwh _. rewrite Hlk, Ho', !Hcur. apply (conv_k1 _ _ HC); auto.
+      * intros Hwh c Hc Hcw. rewrite Hlk, !Hcur. apply (conv_k2 _ _ HC); assumption.
+      * intros Hx. congruence.
+  - (* another peer's detector: at most swallows a token *)
+    assert (Hw : getp s' w = getp s w) by (apply Hq; congruence).
+    assert (Hdo : forall q, pdirty s' q = pdirty s q /\ poutq s' q = poutq s q).
+    { intros q. unfold pdirty, poutq. destruct (decide (q = p)) as [->|Hne].
+      - rewrite Hp. destruct (disc_idle _ _ HD p Hpw) as [Hd Ho]. unfold pdirty in Hd.
+        destruct (detect'_clean _ Hd) as [H1 H2]. rewrite H1, H2, Hd. auto.
+      - rewrite Hq by exact Hne. auto. }
+    split; rewrite ?Hcn.
+    + intros Hwh Hd c Hc. rewrite Hlk, !Hcur, (proj2 (Hdo host)). apply (conv_h1 _ _ HC); auto.
+      rewrite <- (proj1 (Hdo host)). exact Hd.
+    + intros Hwh Hd. rewrite !Hcur, (proj2 (Hdo host)). apply (conv_h2 _ _ HC); auto.
+      rewrite <- (proj1 (Hdo host)). exact Hd.
+    + intros Hwh Hd. rewrite Hlk, !Hcur, (proj2 (Hdo w)). apply (conv_k1 _ _ HC); auto.
+      rewrite <- (proj1 (Hdo w)). exact Hd.
+    + intros Hwh c Hc Hcw. rewrite Hlk, !Hcur. apply (conv_k2 _ _ HC); assumption.
+    + intros Hd. rewrite Hcur. apply (conv_n _ _ HC). rewrite <- (proj1 (Hdo w)). exact Hd.
+Qed.
+
+Lemma conv_send w s p s' : vwf s -> Disc w s -> Conv w s -> vstep s (VSend p) = Some s' -> Conv w s'.
+Proof.
+  intros Hwf HD HC Hstep.
+  apply step_send in Hstep as (_ & Hcn & _ & Hp & Hq & Hl); [|apply wf_nodup, Hwf].
+  assert (Hcur : forall q, pcur s' q = pcur s q).
+  { intros q. unfold pcur. destruct (decide (q = p)) as [->|Hne]; [rewrite Hp; reflexivity|rewrite Hq by exact Hne; reflexivity]. }
+  assert (Hdir : forall q, pdirty s' q = pdirty s q).
+  { intros q. unfold pdirty. destruct (decide (q = p)) as [->|Hne]; [rewrite Hp; reflexivity|rewrite Hq by exact Hne; reflexivity]. }
+  assert (Hop : poutq s' p = []) by (unfold poutq; rewrite Hp; reflexivity).
+  destruct (decide (p = w)) as [->|Hpw].
+  - split; rewrite ?Hcn.
+    + intros -> Hd c Hc. rewrite Hop, app_nil_r, Hl, !Hcur.
+      destruct (decide (host = host /\ c ∈ dsts_of s host)) as [_|Hn]; [|exfalso; apply Hn; auto].
+      apply (conv_h1 _ _ HC); auto. rewrite <- Hdir. exact Hd.
+    + intros -> Hd. rewrite Hop. reflexivity.
+    + intros Hwh Hd. rewrite Hop, app_nil_r, Hl, !Hcur.
+      destruct (decide (w = w /\ host ∈ dsts_of s w)) as [_|Hn].
+      * apply (conv_k1 _ _ HC); auto. rewrite <- Hdir. exact Hd.
+      * exfalso. apply Hn. split; [reflexivity|]. unfold dsts_of.
+        destruct (w =? host)%N eqn:E; [apply N.eqb_eq in E; contradiction|]. apply elem_of_list_singleton. reflexivity.
+    + intros Hwh c Hc Hcw. rewrite Hl, !Hcur.
+      destruct (decide (host = w /\ _)) as [[E _]|_]; [congruence|]. apply (conv_k2 _ _ HC); assumption.
+    + intros Hd. rewrite Hcur. apply (conv_n _ _ HC). rewrite <- Hdir. exact Hd.
+  - destruct (disc_idle _ _ HD p Hpw) as [_ Ho].
+    assert (Hlk : forall a b, link s' a b = link s a b).
+    { intros a b. rewrite Hl, Ho, app_nil_r. destruct (decide _); reflexivity. }
+    assert (Hout : forall q, poutq s' q = poutq s q).
+    { intros q. destruct (decide (q = p)) as [->|Hne]; [rewrite Hop, Ho; reflexivity|]. unfold poutq. rewrite Hq by exact Hne. reflexivity. }
+    split; rewrite ?Hcn.
+    + intros Hwh Hd c Hc. rewrite Hlk, !Hcur, Hout. apply (conv_h1 _ _ HC); auto. rewrite <- Hdir. exact Hd.
+    + intros Hwh Hd. rewrite !Hcur, Hout. apply (conv_h2 _ _ HC); auto. rewrite <- Hdir. exact Hd.
+    + intros Hwh Hd. rewrite Hlk, !Hcur, Hout. apply (conv_k1 _ _ HC); auto. rewrite <- Hdir. exact Hd.
+    + intros Hwh c Hc Hcw. rewrite Hlk, !Hcur. apply (conv_k2 _ _ HC); assumption.
+    + intros Hd. rewrite Hcur. apply (conv_n _ _ HC). rewrite <- Hdir. exact Hd.
+Qed.
+
+Lemma conv_join w s c s' : vwf s -> Conv w s -> vstep s (VJoin c) = Some s' -> Conv w s'.
+Proof.
+  intros Hwf HC Hstep. apply step_join in Hstep as (Hch & Hcn & Hnone & Hcn' & _ & Hq & Hl).
+  assert (Hcur : forall q, pcur s' q = pcur s q) by (intros; unfold pcur; rewrite Hq; reflexivity).
+  assert (Hdir : forall q, pdirty s' q = pdirty s q) by (intros; unfold pdirty; rewrite Hq; reflexivity).
+  assert (Hout : forall q, poutq s' q = poutq s q) by (intros; unfold poutq; rewrite Hq; reflexivity).
+  assert (Hc0 : pcur s c = None) by (unfold pcur; rewrite (getp_none _ _ Hnone); reflexivity).
+  assert (Hl0 : link s host c = []) by (apply wf_link_nil; [exact Hwf|apply wf_host, Hwf|exact Hcn]).
+  split; rewrite ?Hcn'.
+  - intros Hwh Hd c' Hc'. rewrite Hl, !Hcur, Hout. rewrite Hdir in Hd.
+    destruct (decide ((host, c') = (host, c))) as [Heq|Hne].
+    + inversion Heq; subst c'. rewrite Hl0, Hc0. simpl. rewrite lastd_app, lastd_snapshot. apply (conv_h2 _ _ HC); auto.
+    + apply (conv_h1 _ _ HC); auto. apply elem_of_app in Hc' as [H|H]; [exact H|].
+      apply elem_of_list_singleton in H. congruence.
+  - intros Hwh Hd. rewrite !Hcur, Hout. apply (conv_h2 _ _ HC); auto. rewrite <- Hdir. exact Hd.
+  - intros Hwh Hd. rewrite Hl, !Hcur, Hout.
+    destruct (decide ((w, host) = (host, c))) as [Heq|_]; [inversion Heq; congruence|].
+    apply (conv_k1 _ _ HC); auto. rewrite <- Hdir. exact Hd.
+  - intros Hwh c' Hc' Hcw. rewrite Hl, !Hcur.
+    destruct (decide ((host, c') = (host, c))) as [Heq|Hne].
+    + inversion Heq; subst c'. rewrite Hl0, Hc0. simpl. apply lastd_snapshot.
+    + apply (conv_k2 _ _ HC); auto. apply elem_of_app in Hc' as [H|H]; [exact H|].
+      apply elem_of_list_singleton in H. congruence.
+  - intros Hd. rewrite Hcur. apply (conv_n _ _ HC). rewrite <- Hdir. exact Hd.
+Qed.
+
+Lemma conv_deliver w s src dst s' :
+  vwf s -> Disc w s -> Conv w s -> vstep s (VDeliver src dst) = Some s' -> Conv w s'.
+Proof.
+  intros Hwf HD HC Hstep.
+  apply step_deliver in Hstep as (v & rest & Hl0 & _ & Hcn & _ & Hq & Hcase); [|apply wf_nodup, Hwf].
+  assert (Hne0 : link s src dst <> []) by (rewrite Hl0; discriminate).
+  destruct (deliver_shape w s src dst Hwf HD Hne0) as [Hdw Hshape].
+  assert (Hdir : forall q, pdirty s' q = pdirty s q).
+  { intros q. unfold pdirty. destruct (decide (q = dst)) as [->|Hne]; [|rewrite Hq by exact Hne; reflexivity].
+    destruct Hcase as [(_ & Hp & _)|(_ & Hp & _)]; rewrite Hp; reflexivity. }
+  assert (Hout : forall q, poutq s' q = poutq s q).
+  { intros q. unfold poutq. destruct (decide (q = dst)) as [->|Hne]; [|rewrite Hq by exact Hne; reflexivity].
+    destruct Hcase as [(_ & Hp & _)|(_ & Hp & _)]; rewrite Hp; reflexivity. }
+  assert (Hcur : forall q, q <> dst -> pcur s' q = pcur s q).
+  { intros q Hne. unfold pcur. rewrite Hq by exact Hne. reflexivity. }
+  assert (Hcd : pcur s' dst = Some v).
+  { unfold pcur. destruct Hcase as [(Hc & Hp & _)|(_ & Hp & _)]; rewrite Hp; [exact Hc|reflexivity]. }
+  destruct Hshape as [(-> & -> & Hin)|[(Hwh & -> & ->)|(Hwh & -> & Hin)]].
+  - (* writer = host, host -> client dst *)
+    assert (Hdh : dst <> host) by exact Hdw.
+    assert (Hlk : forall a b, link s' a b = if decide ((a, b) = (host, dst)) then rest else link s a b).
+    { intros a b. destruct Hcase as [(_ & _ & Hl)|(_ & _ & Hl)]; rewrite Hl; [reflexivity|].
+      destruct (decide (dst = host /\ _)) as [[E _]|_]; [contradiction|]. apply app_nil_r. }
+    split; rewrite ?Hcn; try (intros; exfalso; congruence).
+    + intros _ Hd c Hc. rewrite Hlk, Hout, (Hcur host) by congruence. rewrite Hdir in Hd.
+      pose proof (conv_h1 _ _ HC eq_refl Hd c Hc) as H1.
+      destruct (decide ((host, c) = (host, dst))) as [Heq|Hne].
+      * inversion Heq; subst c. rewrite Hcd. rewrite Hl0, <- app_comm_cons, lastd_cons in H1. exact H1.
+      * rewrite Hcur by congruence. exact H1.
+    + intros _ Hd. rewrite Hout, (Hcur host) by congruence. apply (conv_h2 _ _ HC); auto. rewrite <- Hdir. exact Hd.
+    + intros Hd. rewrite Hcur by congruence. apply (conv_n _ _ HC). rewrite <- Hdir. exact Hd.
+  - (* writer = client w, w -> host *)
+    split; rewrite ?Hcn; try (intros; exfalso; congruence).
+    + intros _ Hd. rewrite Hout, Hcd, (Hcur w) by congruence. rewrite Hdir in Hd.
+      pose proof (conv_k1 _ _ HC Hwh Hd) as H1. rewrite Hl0, <- app_comm_cons, lastd_cons in H1.
+      destruct Hcase as [(_ & _ & Hl)|(_ & _ & Hl)]; rewrite Hl.
+      * destruct (decide ((w, host) = (w, host))) as [_|Hn]; [exact H1|congruence].
+      * destruct (decide ((w, host) = (w, host))) as [_|Hn]; [|congruence].
+        destruct (decide (host = host /\ w = host /\ _)) as [(_ & E & _)|_]; [congruence|]. rewrite app_nil_r. exact H1.
+    + intros _ c Hc Hcw. rewrite Hcd.
+      assert (Hch : c <> host) by (intros ->; apply (wf_host s Hwf Hc)).
+      rewrite (Hcur c) by exact Hch.
+      pose proof (conv_k2 _ _ HC Hwh c Hc Hcw) as H2.
+      destruct Hcase as [(Hc0 & _ & Hl)|(_ & _ & Hl)]; rewrite Hl.
+      * destruct (decide ((host, c) = (w, host))) as [Heq|_]; [inversion Heq; congruence|].
+        rewrite H2. exact Hc0.
+      * destruct (decide ((host, c) = (w, host))) as [Heq|_]; [inversion Heq; congruence|].
+        destruct (decide (host = host /\ host = host /\ c ∈ others w (vconn s))) as [_|Hn].
+        -- apply lastd_snoc.
+        -- exfalso. apply Hn. split; [reflexivity|]. split; [reflexivity|]. apply elem_of_others. auto.
+    + intros Hd. rewrite Hcur by congruence. apply (conv_n _ _ HC). rewrite <- Hdir. exact Hd.
+  - (* writer = client w, host -> another client dst *)
+    assert (Hdh : dst <> host) by (intros ->; apply (wf_host s Hwf Hin)).
+    assert (Hlk : forall a b, link s' a b = if decide ((a, b) = (host, dst)) then rest else link s a b).
+    { intros a b. destruct Hcase as [(_ & _ & Hl)|(_ & _ & Hl)]; rewrite Hl; [reflexivity|].
+      destruct (decide (dst = host /\ _)) as [[E _]|_]; [contradiction|]. apply app_nil_r. }
+    split; rewrite ?Hcn; try (intros; exfalso; congruence).
+    + intros _ Hd. rewrite Hlk, Hout, (Hcur host), (Hcur w) by congruence.
+      destruct (decide ((w, host) = (host, dst))) as [Heq|_]; [inversion Heq; congruence|].
+      apply (conv_k1 _ _ HC); auto. rewrite <- Hdir. exact Hd.
+    + intros _ c Hc Hcw. rewrite Hlk, (Hcur host) by congruence.
+      pose proof (conv_k2 _ _ HC Hwh c Hc Hcw) as H2.
+      destruct (decide ((host, c) = (host, dst))) as [Heq|Hne].
+      * inversion Heq; subst c. rewrite Hcd. rewrite Hl0, lastd_cons in H2. exact H2.
+      * rewrite Hcur by congruence. exact H2.
+    + intros Hd. rewrite Hcur by congruence. apply (conv_n _ _ HC). rewrite <- Hdir. exact Hd.
+Qed.
+
+(* ---------- the phase invariant is inductive ------------------------------------------------------ *)
+
+Lemma phase_step w s e s' : vwf s -> Phase w s -> writes_by w e -> vstep s e = Some s' -> Phase w s'.
+Proof.
+  intros Hwf [HD HC] Hok Hstep. split.
+  - destruct (decide (e = VJoin w)) as [->|Hne].
+    + (* w itself joins: nobody has a value yet, the snapshot is empty *)
+      pose proof Hstep as Hstep0.
+      apply step_join in Hstep as (Hwh & Hcn & Hnone & _ & _ & Hq & Hl).
+      assert (Hh : pcur s host = None).
+      { pose proof (conv_k1 _ _ HC Hwh) as H1. unfold pdirty, poutq, pcur in H1. rewrite (getp_none _ _ Hnone) in H1.
+        rewrite (wf_link_nil s w host Hwf Hcn (wf_host s Hwf)) in H1. simpl in H1. apply H1. reflexivity. }
+      assert (Hlk : forall a b, link s' a b = link s a b).
+      { intros a b. rewrite Hl. unfold snapshot. rewrite Hh, app_nil_r. destruct (decide _) as [Heq|_]; [|reflexivity].
+        inversion Heq; subst. reflexivity. }
+      destruct HD as [HA HB HI HU]. split; unfold pdirty, poutq, ptoken in *.
+      * intros p Hp. rewrite Hq. apply HA, Hp.
+      * rewrite Hq. exact HB.
+      * intros c. rewrite Hlk. apply HI.
+      * intros c Hc. rewrite Hlk. apply HU, Hc.
+    + eapply disc_step; eauto. destruct e; simpl in *; auto. congruence.
+  - destruct e as [p v|p|p|src dst|c]; simpl in Hok.
+    + subst p. eapply conv_write; eauto.
+    + eapply conv_detect; eauto.
+    + eapply conv_send; eauto.
+    + eapply conv_deliver; eauto.
+    + eapply conv_join; eauto.
+Qed.
+
+Definition no_write (e : vevent) : Prop := match e with VWrite _ _ => False | _ => True end.
+
+(* the writer's own value is only changed by its writes *)
+Lemma phase_cur_w w s e s' : vwf s -> Disc w s -> no_write e -> vstep s e = Some s' -> pcur s' w = pcur s w.
+Proof.
+  intros Hwf HD Hnw Hstep. destruct e as [p v|p|p|src dst|c]; simpl in Hnw; [contradiction| | | |].
+  - apply step_detect in Hstep as (_ & _ & _ & _ & Hp & Hq). unfold pcur.
+    destruct (decide (w = p)) as [->|Hne]; [rewrite Hp; apply detect'_cur|rewrite Hq by exact Hne; reflexivity].
+  - apply step_send in Hstep as (_ & _ & _ & Hp & Hq & _); [|apply wf_nodup, Hwf]. unfold pcur.
+    destruct (decide (w = p)) as [->|Hne]; [rewrite Hp; reflexivity|rewrite Hq by exact Hne; reflexivity].
+  - apply step_deliver in Hstep as (v & rest & Hl0 & _ & _ & _ & Hq & _); [|apply wf_nodup, Hwf].
+    unfold pcur. rewrite Hq; [reflexivity|]. intros ->. rewrite (disc_in _ _ HD) in Hl0. discriminate.
+  - apply step_join in Hstep as (_ & _ & _ & _ & _ & Hq & _). unfold pcur. rewrite Hq. reflexivity.
+Qed.
+
+(* ---------- quiescence and agreement ---------------------------------------------------------------- *)
+
+Definition Agree (s : vstate) (x : option value) : Prop := forall p, peers s p -> pcur s p = x.
+
+Lemma phase_quiescent_agree w s : vquiescent s -> Phase w s -> Agree s (pcur s w).
+Proof.
+  intros Hq [HD HC] p Hp.
+  assert (Hd : forall q, pdirty s q = false) by (intros q; apply (quiescent_peer s q Hq)).
+  assert (Ho : forall q, poutq s q = []) by (intros q; apply (quiescent_peer s q Hq)).
+  destruct (decide (w = host)) as [->|Hwh].
+  - destruct Hp as [->|Hp]; [reflexivity|].
+    pose proof (conv_h1 _ _ HC eq_refl (Hd host) p Hp) as H1.
+    rewrite (quiescent_link s host p Hq), Ho in H1. exact H1.
+  - pose proof (conv_k1 _ _ HC Hwh (Hd w)) as H1. rewrite (quiescent_link s w host Hq), Ho in H1. simpl in H1.
+    destruct Hp as [->|Hp]; [exact H1|].
+    destruct (decide (p = w)) as [->|Hpw]; [reflexivity|].
+    pose proof (conv_k2 _ _ HC Hwh p Hp Hpw) as H2. rewrite (quiescent_link s host p Hq) in H2. simpl in H2. congruence.
+Qed.
+
+Lemma agree_quiescent_phase w s x : vquiescent s -> Agree s x -> peers s w -> Phase w s.
+Proof.
+  intros Hq Ha Hw. split; [apply quiescent_disc, Hq|].
+  assert (Hd : forall q, pdirty s q = false) by (intros q; apply (quiescent_peer s q Hq)).
+  assert (Ho : forall q, poutq s q = []) by (intros q; apply (quiescent_peer s q Hq)).
+  assert (Hh : pcur s host = x) by (apply Ha; left; reflexivity).
+  split.
+  - intros _ _ c Hc. rewrite (quiescent_link s host c Hq), Ho. simpl. rewrite Hh. apply Ha. right. exact Hc.
+  - intros _ _. rewrite Ho. reflexivity.
+  - intros _ _. rewrite (quiescent_link s w host Hq), Ho. simpl. rewrite Hh. symmetry. apply Ha, Hw.
+  - intros _ c Hc _. rewrite (quiescent_link s host c Hq). simpl. rewrite Hh. apply Ha. right. exact Hc.
+  - intros H. rewrite Hd in H. discriminate.
+Qed.
+
+(* ================================================================================================
+   Part 5: C02 -- drain-separated writers converge to the most recent write
+   ================================================================================================ *)
+
+Definition owner (g : option peer) : peer := default host g.
+
+Record C02Inv (g : option peer) (blk : list peer) (lw : option value) (s : vstate) : Prop := {
+  c02_wf : vwf s;
+  c02_phase : forall w, peers s w -> g = None \/ g = Some w -> w ∉ blk -> Phase w s;
+  c02_owner : peers s (owner g) /\ owner g ∉ blk;
+  c02_last : pcur s (owner g) = lw
+}.
+
+Lemma peers_step s e s' p : vstep s e = Some s' -> peers s p -> peers s' p.
+Proof.
+  intros Hstep [->|Hp]; [left; reflexivity|]. right. destruct e as [q v|q|q|src dst|c].
+  - apply step_write in Hstep as (_ & -> & _). exact Hp.
+  - apply step_detect in Hstep as (_ & -> & _). exact Hp.
+  - simpl in Hstep. destruct (vp s !! q); [|discriminate]. destruct (outq v); inversion Hstep; subst; exact Hp.
+  - simpl in Hstep. destruct (link s src dst); [discriminate|]. destruct (vp s !! dst); [|discriminate].
+    destruct (bool_decide _); inversion Hstep; subst; exact Hp.
+  - apply step_join in Hstep as (_ & _ & _ & -> & _). apply elem_of_app. left. exact Hp.
+Qed.
+
+Lemma peers_step_inv s e s' p : vstep s e = Some s' -> peers s' p -> peers s p \/ e = VJoin p.
+Proof.
+  intros Hstep [->|Hp]; [left; left; reflexivity|]. destruct e as [q v|q|q|src dst|c].
+  - apply step_write in Hstep as (_ & Hc & _). rewrite Hc in Hp. left; right; exact Hp.
+  - apply step_detect in Hstep as (_ & Hc & _). rewrite Hc in Hp. left; right; exact Hp.
+  - simpl in Hstep. destruct (vp s !! q); [|discriminate]. destruct (outq v); inversion Hstep; subst; left; right; exact Hp.
+  - simpl in Hstep. destruct (link s src dst); [discriminate|]. destruct (vp s !! dst); [|discriminate].
+    destruct (bool_decide _); inversion Hstep; subst; left; right; exact Hp.
+  - apply step_join in Hstep as (_ & _ & _ & Hc & _). rewrite Hc in Hp. apply elem_of_app in Hp as [Hp|Hp].
+    + left; right; exact Hp. + apply elem_of_list_singleton in Hp. subst. right. reflexivity.
+Qed.
+
+Lemma c02_reset g blk lw s :
+  C02Inv g blk lw s ->
+  C02Inv (if vquiescentb s then None else g) (if vquiescentb s then [] else blk) lw s.
+Proof.
+  intros HI. unfold vquiescentb. destruct (bool_decide (vquiescent s)) eqn:Hq; [|exact HI].
+  apply bool_decide_eq_true in Hq. destruct HI as [Hwf Hph [Hop Hob] Hl].
+  pose proof (phase_quiescent_agree _ _ Hq (Hph (owner g) Hop
+    (match g return g = None \/ g = Some (owner g) with None => or_introl eq_refl | Some w => or_intror eq_refl end) Hob)) as Hag.
+  rewrite Hl in Hag. split.
+  - exact Hwf.
+  - intros w Hw _ _. eapply agree_quiescent_phase; eauto.
+  - split; [left; reflexivity|]. apply not_elem_of_nil.
+  - apply Hag. left. reflexivity.
+Qed.
+
+Lemma C02_general tr : forall g blk lw s s',
+  C02Inv g blk lw s -> vrun s tr = Some s' -> ds_from g s tr = true -> js_from blk s tr = true ->
+  exists g' blk', C02Inv g' blk' (lastd lw (written tr)) s'.
+Proof.
+  induction tr as [|e tr IH]; intros g blk lw s s' HI Hrun Hds Hjs.
+  - simpl in Hrun. inversion Hrun; subst. exists g, blk. exact HI.
+  - cbn [vrun] in Hrun. cbn [ds_from] in Hds. cbn [js_from] in Hjs.
+    destruct (vstep s e) as [s1|] eqn:Hstep; [|discriminate].
+    apply c02_reset in HI. revert HI Hds Hjs.
+    generalize (if vquiescentb s then None else g). generalize (if vquiescentb s then [] else blk).
+    clear g blk. intros blk g HI Hds Hjs.
+    destruct HI as [Hwf Hph [Hop Hob] Hl].
+    pose proof (step_wf _ _ _ Hwf Hstep) as Hwf1.
+    assert (Hown : Phase (owner g) s) by (apply Hph; auto; destruct g; [right|left]; reflexivity).
+    destruct e as [p v|p|p|src dst|c].
+    + (* a write: p takes the phase *)
+      apply andb_prop in Hds as [Hg Hds]. apply bool_decide_eq_true in Hg.
+      apply andb_prop in Hjs as [Hb Hjs]. apply bool_decide_eq_true in Hb.
+      assert (Hpp : peers s p).
+      { apply step_write in Hstep as (Hex & _). apply (wf_exists s p Hwf), Hex. }
+      pose proof (phase_step p s (VWrite p v) s1 Hwf (Hph p Hpp Hg Hb) eq_refl Hstep) as Hp1.
+      change (written (VWrite p v :: tr)) with (v :: written tr). rewrite lastd_cons.
+      eapply (IH (Some p) blk); [|exact Hrun|exact Hds|exact Hjs].
+      split; [exact Hwf1| |split; [eapply peers_step; eauto|exact Hb]|].
+      * intros w _ [Hn|Hn] _; [discriminate|]. inversion Hn; subst. exact Hp1.
+      * simpl. apply step_write in Hstep as (_ & _ & _ & _ & Hpv & _). unfold pcur. rewrite Hpv. reflexivity.
+    + cbn [written omap]. eapply (IH g blk); [|exact Hrun|exact Hds|exact Hjs].
+      split; [exact Hwf1| |split; [eapply peers_step; eauto|exact Hob]|].
+      * intros w Hw Hg Hb. destruct (peers_step_inv _ _ _ _ Hstep Hw) as [Hw0|Hx]; [|discriminate].
+        eapply phase_step; [exact Hwf|exact (Hph w Hw0 Hg Hb)| |exact Hstep]; exact I.
+      * rewrite <- Hl. eapply phase_cur_w; [exact Hwf|exact (proj1 Hown)| |exact Hstep]; exact I.
+    + cbn [written omap]. eapply (IH g blk); [|exact Hrun|exact Hds|exact Hjs].
+      split; [exact Hwf1| |split; [eapply peers_step; eauto|exact Hob]|].
+      * intros w Hw Hg Hb. destruct (peers_step_inv _ _ _ _ Hstep Hw) as [Hw0|Hx]; [|discriminate].
+        eapply phase_step; [exact Hwf|exact (Hph w Hw0 Hg Hb)| |exact Hstep]; exact I.
+      * rewrite <- Hl. eapply phase_cur_w; [exact Hwf|exact (proj1 Hown)| |exact Hstep]; exact I.
+    + cbn [written omap]. eapply (IH g blk); [|exact Hrun|exact Hds|exact Hjs].
+      split; [exact Hwf1| |split; [eapply peers_step; eauto|exact Hob]|].
+      * intros w Hw Hg Hb. destruct (peers_step_inv _ _ _ _ Hstep Hw) as [Hw0|Hx]; [|discriminate].
+        eapply phase_step; [exact Hwf|exact (Hph w Hw0 Hg Hb)| |exact Hstep]; exact I.
+      * rewrite <- Hl. eapply phase_cur_w; [exact Hwf|exact (proj1 Hown)| |exact Hstep]; exact I.
+    + (* a join: the joiner is blocked until the next quiescent state *)
+      cbn [written omap]. eapply (IH g (c :: blk)); [|exact Hrun|exact Hds|exact Hjs].
+      pose proof Hstep as Hj. apply step_join in Hj as (Hch & Hcn & _).
+      assert (Hnp : ~ peers s c) by (intros [?|?]; contradiction).
+      split; [exact Hwf1| |split; [eapply peers_step; eauto|]|].
+      * intros w Hw Hg Hb. apply not_elem_of_cons in Hb as [Hwc Hb].
+        destruct (peers_step_inv _ _ _ _ Hstep Hw) as [Hw0|Hx]; [|inversion Hx; congruence].
+        eapply phase_step; [exact Hwf|exact (Hph w Hw0 Hg Hb)| |exact Hstep]; exact I.
+      * apply not_elem_of_cons. split; [|exact Hob]. intros Heq. apply Hnp. rewrite <- Heq. exact Hop.
+      * rewrite <- Hl. eapply phase_cur_w; [exact Hwf|exact (proj1 Hown)| |exact Hstep]; exact I.
+Qed.
+
+Lemma c02_init n : C02Inv None [] None (vinit n).
+Proof.
+  split.
+  - apply vinit_wf.
+  - intros w Hw _ _. apply (agree_quiescent_phase w _ None (vinit_quiescent n)); [|exact Hw].
+    intros p _. unfold pcur. rewrite vinit_getp. reflexivity.
+  - split; [left; reflexivity|apply not_elem_of_nil].
+  - unfold pcur. rewrite vinit_getp. reflexivity.
+Qed.
+
+Lemma c02_agree g blk lw s : C02Inv g blk lw s -> vquiescent s -> Agree s lw.
+Proof.
+  intros [Hwf Hph [Hop Hob] Hl] Hq. rewrite <- Hl. apply phase_quiescent_agree; [exact Hq|].
+  apply Hph; auto. destruct g; [right|left]; reflexivity.
+Qed.
+
+Lemma lastd_None_last l : lastd None l = last l.
+Proof. rewrite lastd_last. destruct (last l); reflexivity. Qed.
+
+(* C02: with drain-separated writers (and joiners that do not write before their snapshot has settled),
+   at a quiescent state every peer (host and every connected client) holds the most recent write. *)
+Theorem C02_values_converge n tr s' :
+  vrun (vinit n) tr = Some s' ->
+  drain_separated (vinit n) tr -> joiners_settled (vinit n) tr ->
+  vquiescent s' ->
+  forall p, peers s' p -> pcur s' p = last (written tr).
+Proof.
+  intros Hrun Hds Hjs Hq.
+  destruct (C02_general tr None [] None (vinit n) s' (c02_init n) Hrun Hds Hjs) as (g' & blk' & HI).
+  rewrite <- lastd_None_last. exact (c02_agree _ _ _ _ HI Hq).
+Qed.
+Print Assumptions C02_values_converge.
+
+(* the hypotheses are prefix-closed, so the statement holds at EVERY quiescent state along the run *)
+Lemma vrun_app s tr1 tr2 : vrun s (tr1 ++ tr2) = match vrun s tr1 with Some s1 => vrun s1 tr2 | None => None end.
+Proof.
+  revert s. induction tr1 as [|e tr1 IH]; intros s; simpl; [reflexivity|]. destruct (vstep s e); [apply IH|reflexivity].
+Qed.
+Lemma ds_from_prefix g s tr1 tr2 : ds_from g s (tr1 ++ tr2) = true -> ds_from g s tr1 = true.
+Proof.
+  revert g s. induction tr1 as [|e tr1 IH]; intros g s H; [reflexivity|].
+  cbn [app ds_from] in *. destruct (vstep s e) as [s1|]; [|reflexivity].
+  destruct e; try (eapply IH; exact H).
+  apply andb_prop in H as [H1 H2]. rewrite H1. simpl. eapply IH; exact H2.
+Qed.
+Lemma js_from_prefix blk s tr1 tr2 : js_from blk s (tr1 ++ tr2) = true -> js_from blk s tr1 = true.
+Proof.
+  revert blk s. induction tr1 as [|e tr1 IH]; intros blk s H; [reflexivity|].
+  cbn [app js_from] in *. destruct (vstep s e) as [s1|]; [|reflexivity].
+  destruct e; try (eapply IH; exact H).
+  apply andb_prop in H as [H1 H2]. rewrite H1. simpl. eapply IH; exact H2.
+Qed.
+
+Theorem C02_every_quiescent_state n tr1 tr2 s1 :
+  drain_separated (vinit n) (tr1 ++ tr2) -> joiners_settled (vinit n) (tr1 ++ tr2) ->
+  is_Some (vrun (vinit n) (tr1 ++ tr2)) ->
+  vrun (vinit n) tr1 = Some s1 -> vquiescent s1 ->
+  forall p, peers s1 p -> pcur s1 p = last (written tr1).
+Proof.
+  intros Hds Hjs _ Hrun Hq. eapply C02_values_converge; eauto.
+  - eapply ds_from_prefix; exact Hds. - eapply js_from_prefix; exact Hjs.
+Qed.
+Print Assumptions C02_every_quiescent_state.
+
+(* non-vacuity: three writers taking turns, a client joining in between *)
+Definition ex_turns : list vevent :=
+  [VWrite 1 10; VDetect 1; VSend 1; VDeliver 1 0; VDeliver 0 2; VDetect 0; VDetect 2;
+   VWrite 0 20; VJoin 3; VDetect 0; VSend 0; VDeliver 0 1; VDeliver 0 2; VDeliver 0 3; VDeliver 0 3;
+   VDetect 1; VDetect 2; VDetect 3;
+   VWrite 3 30; VWrite 3 31; VDetect 3; VSend 3; VDeliver 3 0; VDeliver 0 1; VDeliver 0 2;
+   VDetect 0; VDetect 1; VDetect 2].
+Example C02_nonvacuous :
+  drain_separated (vinit 2) ex_turns /\ joiners_settled (vinit 2) ex_turns /\
+  (fun s => view s [0; 1; 2; 3]) <$> vrun (vinit 2) ex_turns = Some ([Some 31; Some 31; Some 31; Some 31], true).
+Proof. vm_compute. auto. Qed.
+
+(* without drain separation: two peers end quiescent with different values *)
+Definition ex_conflict : list vevent :=
+  [VWrite 1 10; VWrite 2 20; VDetect 1; VDetect 2; VSend 1; VSend 2; VDeliver 1 0; VDeliver 2 0;
+   VDeliver 0 2; VDeliver 0 1; VDetect 0; VDetect 1; VDetect 2].
+Example C02_conflict_example :
+  ds_from None (vinit 2) ex_conflict = false /\
+  (fun s => view s [0; 1; 2]) <$> vrun (vinit 2) ex_conflict = Some ([Some 20; Some 20; Some 10], true).
+Proof. vm_compute. auto. Qed.
+
+(* without drain separation: a local write is swallowed with the token (never announced) *)
+Example C02_lost_write_example :
+  let tr := [VWrite 1 10; VDetect 1; VSend 1; VDeliver 1 0; VDeliver 0 2; VWrite 2 99; VDetect 2; VDetect 0] in
+  ds_from None (vinit 2) tr = false /\
+  (fun s => view s [0; 1; 2]) <$> vrun (vinit 2) tr = Some ([Some 10; Some 10; Some 99], true).
+Proof. vm_compute. auto. Qed.
+
+(* drain separation alone is not enough: a client that writes before its own snapshot has settled
+   loses the write (the snapshot's token swallows it) -- hence [joiners_settled]. *)
+Definition ex_join_write : list vevent :=
+  [VWrite 0 5; VDetect 0; VSend 0; VDeliver 0 1; VDetect 1; VJoin 2; VDeliver 0 2; VWrite 2 7; VDetect 2].
+Theorem C02_join_write_refuted :
+  exists n tr s' p,
+    vrun (vinit n) tr = Some s' /\ drain_separated (vinit n) tr /\ vquiescent s' /\ peers s' p /\
+    pcur s' p <> last (written tr) /\ ~ joiners_settled (vinit n) tr.
+Proof.
+  exists 1%nat, ex_join_write.
+  destruct (vrun (vinit 1) ex_join_write) as [s'|] eqn:Hrun; [|vm_compute in Hrun; discriminate].
+  exists s', 0. split; [reflexivity|]. split; [vm_compute; reflexivity|].
+  assert (Hv : view s' [0; 2] = ([Some 5; Some 7], true)).
+  { assert (H : (fun s => view s [0; 2]) <$> vrun (vinit 1) ex_join_write = Some ([Some 5; Some 7], true)) by (vm_compute; reflexivity).
+    rewrite Hrun in H. simpl in H. congruence. }
+  inversion Hv as [[H0 H2 Hq]]. split; [apply bool_decide_eq_true in Hq; exact Hq|].
+  split; [left; reflexivity|]. split.
+  - rewrite H0. vm_compute. congruence.
+  - unfold joiners_settled. vm_compute. discriminate.
+Qed.
+
+(* ================================================================================================
+   Part 6: C10 -- a single writer's updates are observed in order, never invented
+   Positions: [at_ W k] is the k-th written value (1-based; 0 = "no value yet").
+   [chain W lo l hi]: the values of l sit at non-decreasing positions of W between lo and hi.
+   ================================================================================================ *)
+
+Definition at_ (W : list value) (k : nat) : option value := match k with O => None | S j => W !! j end.
+
+Inductive chain (W : list value) : nat -> list value -> nat -> Prop :=
+| chain_nil lo hi : (lo <= hi)%nat -> chain W lo [] hi
+| chain_cons lo j v l hi : (lo <= j)%nat -> at_ W j = Some v -> chain W j l hi -> chain W lo (v :: l) hi.
+
+Lemma chain_le W lo l hi : chain W lo l hi -> (lo <= hi)%nat.
+Proof. induction 1; lia. Qed.
+Lemma chain_lo W lo lo' l hi : (lo' <= lo)%nat -> chain W lo l hi -> chain W lo' l hi.
+Proof. intros Hle H. destruct H; [apply chain_nil; lia|eapply chain_cons; [|eassumption|eassumption]; lia]. Qed.
+Lemma chain_hi W lo l hi hi' : (hi <= hi')%nat -> chain W lo l hi -> chain W lo l hi'.
+Proof. intros Hle H. induction H; [apply chain_nil; lia|eapply chain_cons; [eassumption|eassumption|auto]]. Qed.
+Lemma chain_snoc W lo l hi v : chain W lo l hi -> at_ W hi = Some v -> chain W lo (l ++ [v]) hi.
+Proof.
+  intros H Hv. induction H as [lo hi Hle|lo j v0 l hi Hle Hat Hc IH]; simpl.
+  - eapply chain_cons; [exact Hle|exact Hv|apply chain_nil; lia].
+  - eapply chain_cons; eauto.
+Qed.
+Lemma at_mono W v k x : at_ W k = Some x -> at_ (W ++ [v]) k = Some x.
+Proof. destruct k as [|j]; simpl; [discriminate|]. intros H. apply lookup_app_l_Some. exact H. Qed.
+Lemma at_app_le W v k : (k <= length W)%nat -> at_ (W ++ [v]) k = at_ W k.
+Proof. destruct k as [|j]; simpl; [reflexivity|]. intros H. apply lookup_app_l. lia. Qed.
+Lemma at_last W v : at_ (W ++ [v]) (S (length W)) = Some v.
+Proof. simpl. apply list_lookup_middle. reflexivity. Qed.
+Lemma at_elem W k v : at_ W k = Some v -> v ∈ W.
+Proof. destruct k; simpl; [discriminate|]. apply elem_of_list_lookup_2. Qed.
+Lemma chain_mono W v lo l hi : chain W lo l hi -> chain (W ++ [v]) lo l hi.
+Proof. intros H. induction H; [apply chain_nil; assumption|eapply chain_cons; eauto using at_mono]. Qed.
+Lemma chain_head W lo v l hi :
+  chain W lo (v :: l) hi -> exists j, (lo <= j)%nat /\ at_ W j = Some v /\ chain W j l hi.
+Proof. intros H. inversion H; subst. eauto. Qed.
+
+Lemma sublist_take_le {A} (l : list A) i j : (i <= j)%nat -> take i l `sublist_of` take j l.
+Proof.
+  intros Hle. replace i with (i `min` j)%nat by lia. rewrite <- take_take. apply sublist_take.
+Qed.
+
+(* a displayed change lands strictly later in W *)
+Lemma disp_extend W D i j v :
+  D `sublist_of` take i W -> (i <= j)%nat -> at_ W i <> Some v -> at_ W j = Some v ->
+  D ++ [v] `sublist_of` take j W.
+Proof.
+  intros HD Hle Hne Hj. destruct j as [|j0]; [discriminate|]. simpl in Hj.
+  assert (Hij : (i <= j0)%nat). { destruct (decide (i = S j0)) as [->|]; [simpl in Hne; contradiction|lia]. }
+  rewrite (take_S_r _ _ _ Hj). apply sublist_app; [|reflexivity].
+  etransitivity; [exact HD|]. apply sublist_take_le. exact Hij.
+Qed.
+
+Definition delta (p : peer) (s s' : vstate) : list value :=
+  if bool_decide (pcur s' p = pcur s p) then [] else match pcur s' p with Some v => [v] | None => [] end.
+
+Definition upd (pos : peer -> nat) (q : peer) (k : nat) : peer -> nat := fun p => if decide (p = q) then k else pos p.
+Lemma upd_eq pos q k : upd pos q k q = k.
+Proof. unfold upd. destruct (decide (q = q)); congruence. Qed.
+Lemma upd_ne pos q k p : p <> q -> upd pos q k p = pos p.
+Proof. intros H. unfold upd. destruct (decide (p = q)); congruence. Qed.
+
+Record PosI (w : peer) (W : list value) (D : peer -> list value) (s : vstate) (pos : peer -> nat) : Prop := {
+  pi_cur : forall p, pcur s p = at_ W (pos p);
+  pi_le : forall p, (pos p <= length W)%nat;
+  pi_w : pos w = length W;
+  pi_non : forall p, p <> w -> ~ peers s p -> pos p = O;
+  pi_disp : forall p, p <> w -> D p `sublist_of` take (pos p) W;
+  pi_h : w = host -> forall c, c ∈ vconn s -> chain W (pos c) (link s host c ++ poutq s host) (length W);
+  pi_k1 : w <> host -> chain W (pos host) (link s w host ++ poutq s w) (length W);
+  pi_k2 : w <> host -> forall c, c ∈ vconn s -> c <> w -> chain W (pos c) (link s host c) (pos host)
+}.
+
+Lemma delta_same p s s' : pcur s' p = pcur s p -> delta p s s' = [].
+Proof. intros H. unfold delta. rewrite bool_decide_eq_true_2 by exact H. reflexivity. Qed.
+
+Lemma pos_write w W D s pos v s' :
+  vwf s -> PosI w W D s pos -> vstep s (VWrite w v) = Some s' ->
+  PosI w (W ++ [v]) (fun p => D p ++ delta p s s') s' (upd pos w (S (length W))).
+Proof.
+  intros Hwf HP Hstep. apply step_write in Hstep as (_ & Hcn & Hl & _ & Hp & Hq).
+  assert (Hcur : forall p, p <> w -> pcur s' p = pcur s p) by (intros p Hne; unfold pcur; rewrite Hq by exact Hne; reflexivity).
+  assert (Hout : forall p, poutq s' p = poutq s p).
+  { intros p. unfold poutq. destruct (decide (p = w)) as [->|Hne]; [rewrite Hp; reflexivity|rewrite Hq by exact Hne; reflexivity]. }
+  assert (Hlk : forall a b, link s' a b = link s a b) by (intros; unfold link; rewrite Hl; reflexivity).
+  assert (Hlen : length (W ++ [v]) = S (length W)) by (rewrite app_length; simpl; lia).
+  split; rewrite ?Hcn, ?Hlen.
+  - intros p. destruct (decide (p = w)) as [->|Hne].
+    + rewrite upd_eq. unfold pcur. rewrite Hp. simpl. symmetry. apply list_lookup_middle. reflexivity.
+    + rewrite upd_ne, Hcur by exact Hne. rewrite at_app_le by apply (pi_le _ _ _ _ _ HP). apply (pi_cur _ _ _ _ _ HP).
+  - intros p. unfold upd. destruct (decide (p = w)); [lia|]. pose proof (pi_le _ _ _ _ _ HP p). lia.
+  - apply upd_eq.
+  - intros p Hne Hnp. rewrite upd_ne by exact Hne. apply (pi_non _ _ _ _ _ HP); [exact Hne|].
+    unfold peers in *. rewrite Hcn in Hnp. exact Hnp.
+  - intros p Hne. rewrite upd_ne, delta_same, app_nil_r by auto.
+    rewrite take_app_le by apply (pi_le _ _ _ _ _ HP). apply (pi_disp _ _ _ _ _ HP), Hne.
+  - intros Hwh c Hc. assert (c <> w) by (intros ->; subst; apply (wf_host s Hwf Hc)).
+    rewrite upd_ne, Hlk, Hout by assumption. apply chain_mono. eapply chain_hi; [|apply (pi_h _ _ _ _ _ HP); auto]. lia.
+  - intros Hwh. rewrite upd_ne, Hlk, Hout by congruence. apply chain_mono. eapply chain_hi; [|apply (pi_k1 _ _ _ _ _ HP); auto]. lia.
+  - intros Hwh c Hc Hcw. rewrite !upd_ne, Hlk by congruence. apply chain_mono. apply (pi_k2 _ _ _ _ _ HP); auto.
+Qed.
+
+(* events that change no displayed value and no membership: only the chains must be re-established *)
+Lemma pos_transfer w W D s pos s' :
+  (forall p, pcur s' p = pcur s p) -> vconn s' = vconn s ->
+  (w = host -> forall c, c ∈ vconn s -> chain W (pos c) (link s' host c ++ poutq s' host) (length W)) ->
+  (w <> host -> chain W (pos host) (link s' w host ++ poutq s' w) (length W)) ->
+  (w <> host -> forall c, c ∈ vconn s -> c <> w -> chain W (pos c) (link s' host c) (pos host)) ->
+  PosI w W D s pos -> PosI w W (fun p => D p ++ delta p s s') s' pos.
+Proof.
+  intros Hcur Hcn H1 H2 H3 HP. split; rewrite ?Hcn; try assumption.
+  - intros p. rewrite Hcur. apply (pi_cur _ _ _ _ _ HP).
+  - apply (pi_le _ _ _ _ _ HP).
+  - apply (pi_w _ _ _ _ _ HP).
+  - intros p Hne Hnp. apply (pi_non _ _ _ _ _ HP); [exact Hne|]. unfold peers in *. rewrite Hcn in Hnp. exact Hnp.
+  - intros p Hne. rewrite delta_same, app_nil_r by apply Hcur. apply (pi_disp _ _ _ _ _ HP), Hne.
+Qed.
+
+Lemma pos_detect w W D s pos p s' :
+  Phase w s -> PosI w W D s pos -> vstep s (VDetect p) = Some s' ->
+  PosI w W (fun q => D q ++ delta q s s') s' pos.
+Proof.
+  intros [HD HC] HP Hstep. apply step_detect in Hstep as (_ & Hcn & Hl & _ & Hp & Hq).
+  assert (Hcur : forall q, pcur s' q = pcur s q).
+  { intros q. unfold pcur. destruct (decide (q = p)) as [->|Hne]; [rewrite Hp; apply detect'_cur|rewrite Hq by exact Hne; reflexivity]. }
+  assert (Hlk : forall a b, link s' a b = link s a b) by (intros; unfold link; rewrite Hl; reflexivity).
+  assert (Hout : forall q, q <> w -> poutq s' q = poutq s q).
+  { intros q Hne. unfold poutq. destruct (decide (q = p)) as [->|Hqp]; [|rewrite Hq by exact Hqp; reflexivity].
+    rewrite Hp. destruct (disc_idle _ _ HD p Hne) as [Hd _]. apply (detect'_clean _ Hd). }
+  assert (Hw : poutq s' w = poutq s w \/ exists v, poutq s' w = poutq s w ++ [v] /\ at_ W (length W) = Some v).
+  { destruct (decide (w = p)) as [->|Hne]; [|left; unfold poutq; rewrite Hq by exact Hne; reflexivity].
+    unfold poutq. rewrite Hp. destruct (pdirty s p) eqn:Hd.
+    - right. destruct (conv_n _ _ HC Hd) as [v Hv]. exists v.
+      destruct (detect'_dirty _ Hd (disc_token _ _ HD)) as [_ Ho]. fold (pcur s p) in Ho. rewrite Hv in Ho.
+      split; [exact Ho|]. rewrite <- (pi_w _ _ _ _ _ HP), <- (pi_cur _ _ _ _ _ HP). exact Hv.
+    - left. apply (detect'_clean _ Hd). }
+  apply pos_transfer; try assumption.
+  - intros -> c Hc. rewrite Hlk. destruct Hw as [->|(v & -> & Hv)]; [apply (pi_h _ _ _ _ _ HP); auto|].
+    rewrite app_assoc. apply chain_snoc; [apply (pi_h _ _ _ _ _ HP); auto|exact Hv].
+  - intros Hwh. rewrite Hlk. destruct Hw as [->|(v & -> & Hv)]; [apply (pi_k1 _ _ _ _ _ HP); auto|].
+    rewrite app_assoc. apply chain_snoc; [apply (pi_k1 _ _ _ _ _ HP); auto|exact Hv].
+  - intros Hwh c Hc Hcw. rewrite Hlk. apply (pi_k2 _ _ _ _ _ HP); auto.
+Qed.
+
+Lemma pos_send w W D s pos p s' :
+  vwf s -> Phase w s -> PosI w W D s pos -> vstep s (VSend p) = Some s' ->
+  PosI w W (fun q => D q ++ delta q s s') s' pos.
+Proof.
+  intros Hwf [HD HC] HP Hstep.
+  apply step_send in Hstep as (_ & Hcn & _ & Hp & Hq & Hl); [|apply wf_nodup, Hwf].
+  assert (Hcur : forall q, pcur s' q = pcur s q).
+  { intros q. unfold pcur. destruct (decide (q = p)) as [->|Hne]; [rewrite Hp; reflexivity|rewrite Hq by exact Hne; reflexivity]. }
+  assert (Hop : poutq s' p = []) by (unfold poutq; rewrite Hp; reflexivity).
+  destruct (decide (p = w)) as [->|Hpw].
+  - apply pos_transfer; try assumption.
+    + intros -> c Hc. rewrite Hop, app_nil_r, Hl.
+      destruct (decide (host = host /\ c ∈ dsts_of s host)) as [_|Hn]; [|exfalso; apply Hn; auto].
+      apply (pi_h _ _ _ _ _ HP); auto.
+    + intros Hwh. rewrite Hop, app_nil_r, Hl.
+      destruct (decide (w = w /\ host ∈ dsts_of s w)) as [_|Hn]; [apply (pi_k1 _ _ _ _ _ HP); auto|].
+      exfalso. apply Hn. split; [reflexivity|]. unfold dsts_of.
+      destruct (w =? host)%N eqn:E; [apply N.eqb_eq in E; contradiction|]. apply elem_of_list_singleton. reflexivity.
+    + intros Hwh c Hc Hcw. rewrite Hl. destruct (decide (host = w /\ _)) as [[E _]|_]; [congruence|].
+      apply (pi_k2 _ _ _ _ _ HP); auto.
+  - destruct (disc_idle _ _ HD p Hpw) as [_ Ho].
+    assert (Hlk : forall a b, link s' a b = link s a b).
+    { intros a b. rewrite Hl, Ho, app_nil_r. destruct (decide _); reflexivity. }
+    assert (Hout : forall q, poutq s' q = poutq s q).
+    { intros q. destruct (decide (q = p)) as [->|Hne]; [rewrite Hop, Ho; reflexivity|]. unfold poutq. rewrite Hq by exact Hne. reflexivity. }
+    apply pos_transfer; try assumption.
+    + intros Hwh c Hc. rewrite Hlk, Hout. apply (pi_h _ _ _ _ _ HP); auto.
+    + intros Hwh. rewrite Hlk, Hout. apply (pi_k1 _ _ _ _ _ HP); auto.
+    + intros Hwh c Hc Hcw. rewrite Hlk. apply (pi_k2 _ _ _ _ _ HP); auto.
+Qed.
+
+Lemma chain_snapshot W s lo hi :
+  (lo <= hi)%nat -> pcur s host = at_ W hi -> chain W lo (snapshot s) hi.
+Proof.
+  intros Hle Hh. unfold snapshot. destruct (pcur s host) as [v|] eqn:Hv.
+  - eapply chain_cons; [exact Hle|symmetry; exact Hh|apply chain_nil; lia].
+  - apply chain_nil. exact Hle.
+Qed.
+
+Lemma pos_join w W D s pos c s' :
+  vwf s -> PosI w W D s pos -> (w = host -> poutq s host = []) -> vstep s (VJoin c) = Some s' ->
+  PosI w W (fun q => D q ++ delta q s s') s' pos.
+Proof.
+  intros Hwf HP Hclean Hstep. pose proof Hstep as Hstep0.
+  apply step_join in Hstep as (Hch & Hcn & Hnone & Hcn' & _ & Hq & Hl).
+  assert (Hcur : forall q, pcur s' q = pcur s q) by (intros; unfold pcur; rewrite Hq; reflexivity).
+  assert (Hout : forall q, poutq s' q = poutq s q) by (intros; unfold poutq; rewrite Hq; reflexivity).
+  assert (Hl0 : link s host c = []) by (apply wf_link_nil; [exact Hwf|apply wf_host, Hwf|exact Hcn]).
+  assert (Hnp : ~ peers s c) by (intros [?|?]; contradiction).
+  split.
+  - intros p. rewrite Hcur. apply (pi_cur _ _ _ _ _ HP).
+  - apply (pi_le _ _ _ _ _ HP).
+  - apply (pi_w _ _ _ _ _ HP).
+  - intros p Hne Hn. apply (pi_non _ _ _ _ _ HP); [exact Hne|]. intros Hp. apply Hn. eapply peers_step; [exact Hstep0|exact Hp].
+  - intros p Hne. rewrite delta_same, app_nil_r by apply Hcur. apply (pi_disp _ _ _ _ _ HP), Hne.
+  - intros Hwh c' Hc'. rewrite Hcn' in Hc'. rewrite Hl, Hout.
+    destruct (decide ((host, c') = (host, c))) as [Heq|Hne].
+    + inversion Heq; subst c'. rewrite Hl0, (Hclean Hwh), app_nil_r. simpl.
+      assert (Hpc : pos c = O) by (apply (pi_non _ _ _ _ _ HP); [congruence|exact Hnp]).
+      rewrite Hpc. apply chain_snapshot; [lia|]. rewrite (pi_cur _ _ _ _ _ HP), <- Hwh, (pi_w _ _ _ _ _ HP). reflexivity.
+    + apply (pi_h _ _ _ _ _ HP); auto. apply elem_of_app in Hc' as [H|H]; [exact H|]. apply elem_of_list_singleton in H. congruence.
+  - intros Hwh. rewrite Hl, Hout. destruct (decide ((w, host) = (host, c))) as [Heq|_]; [inversion Heq; congruence|].
+    apply (pi_k1 _ _ _ _ _ HP); auto.
+  - intros Hwh c' Hc' Hcw. rewrite Hcn' in Hc'. rewrite Hl.
+    destruct (decide ((host, c') = (host, c))) as [Heq|Hne].
+    + inversion Heq; subst c'. rewrite Hl0. simpl.
+      assert (Hpc : pos c = O) by (apply (pi_non _ _ _ _ _ HP); [exact Hcw|exact Hnp]).
+      rewrite Hpc. apply chain_snapshot; [lia|]. apply (pi_cur _ _ _ _ _ HP).
+    + apply (pi_k2 _ _ _ _ _ HP); auto. apply elem_of_app in Hc' as [H|H]; [exact H|]. apply elem_of_list_singleton in H. congruence.
+Qed.
+
+Lemma disp_deliver W D i j v old :
+  D `sublist_of` take i W -> (i <= j)%nat -> at_ W j = Some v -> old = at_ W i ->
+  D ++ (if bool_decide (Some v = old) then [] else [v]) `sublist_of` take j W.
+Proof.
+  intros HD Hle Hj Hold. destruct (bool_decide (Some v = old)) eqn:Hb.
+  - rewrite app_nil_r. etransitivity; [exact HD|]. apply sublist_take_le. exact Hle.
+  - apply bool_decide_eq_false in Hb. eapply disp_extend; eauto. congruence.
+Qed.
+
+Lemma pos_deliver w W D s pos src dst s' :
+  vwf s -> Phase w s -> PosI w W D s pos -> vstep s (VDeliver src dst) = Some s' ->
+  exists pos', PosI w W (fun q => D q ++ delta q s s') s' pos'.
+Proof.
+  intros Hwf [HD HC] HP Hstep.
+  apply step_deliver in Hstep as (v & rest & Hl0 & _ & Hcn & _ & Hq & Hcase); [|apply wf_nodup, Hwf].
+  assert (Hne0 : link s src dst <> []) by (rewrite Hl0; discriminate).
+  destruct (deliver_shape w s src dst Hwf HD Hne0) as [Hdw Hshape].
+  assert (Hout : forall q, poutq s' q = poutq s q).
+  { intros q. unfold poutq. destruct (decide (q = dst)) as [->|Hne]; [|rewrite Hq by exact Hne; reflexivity].
+    destruct Hcase as [(_ & Hp & _)|(_ & Hp & _)]; rewrite Hp; reflexivity. }
+  assert (Hcur : forall q, q <> dst -> pcur s' q = pcur s q).
+  { intros q Hne. unfold pcur. rewrite Hq by exact Hne. reflexivity. }
+  assert (Hcd : pcur s' dst = Some v).
+  { unfold pcur. destruct Hcase as [(Hc & Hp & _)|(_ & Hp & _)]; rewrite Hp; [exact Hc|reflexivity]. }
+  assert (Hpeers : forall p, peers s' p <-> peers s p) by (intros p; unfold peers; rewrite Hcn; reflexivity).
+  assert (Hdp : peers s dst).
+  { destruct Hshape as [(_ & _ & Hin)|[(_ & _ & ->)|(_ & _ & Hin)]]; [right; exact Hin|left; reflexivity|right; exact Hin]. }
+  (* common part, given the position j of the delivered value *)
+  assert (Hcommon : forall j, (pos dst <= j)%nat -> (j <= length W)%nat -> at_ W j = Some v ->
+            (forall p, pcur s' p = at_ W (upd pos dst j p)) /\
+            (forall p, (upd pos dst j p <= length W)%nat) /\
+            upd pos dst j w = length W /\
+            (forall p, p <> w -> ~ peers s' p -> upd pos dst j p = O) /\
+            (forall p, p <> w -> D p ++ delta p s s' `sublist_of` take (upd pos dst j p) W)).
+  { intros j Hlo Hhi Hj. split; [|split; [|split; [|split]]].
+    - intros p. destruct (decide (p = dst)) as [->|Hne]; [rewrite upd_eq, Hcd, Hj; reflexivity|].
+      rewrite upd_ne, Hcur by exact Hne. apply (pi_cur _ _ _ _ _ HP).
+    - intros p. unfold upd. destruct (decide (p = dst)); [exact Hhi|apply (pi_le _ _ _ _ _ HP)].
+    - rewrite upd_ne by congruence. apply (pi_w _ _ _ _ _ HP).
+    - intros p Hne Hnp. destruct (decide (p = dst)) as [->|Hpd]; [exfalso; apply Hnp, Hpeers, Hdp|].
+      rewrite upd_ne by exact Hpd. apply (pi_non _ _ _ _ _ HP); [exact Hne|]. intros Hp. apply Hnp, Hpeers, Hp.
+    - intros p Hne. destruct (decide (p = dst)) as [->|Hpd].
+      + rewrite upd_eq. unfold delta. rewrite Hcd.
+        apply (disp_deliver W (D dst) (pos dst) j v (pcur s dst)); auto.
+        * apply (pi_disp _ _ _ _ _ HP), Hne. * apply (pi_cur _ _ _ _ _ HP).
+      + rewrite upd_ne, delta_same, app_nil_r by auto. apply (pi_disp _ _ _ _ _ HP), Hne. }
+  destruct Hshape as [(-> & -> & Hin)|[(Hwh & -> & ->)|(Hwh & -> & Hin)]].
+  - (* writer = host, host -> client dst *)
+    assert (Hdh : dst <> host) by exact Hdw.
+    assert (Hlk : forall a b, link s' a b = if decide ((a, b) = (host, dst)) then rest else link s a b).
+    { intros a b. destruct Hcase as [(_ & _ & Hl)|(_ & _ & Hl)]; rewrite Hl; [reflexivity|].
+      destruct (decide (dst = host /\ _)) as [[E _]|_]; [contradiction|]. apply app_nil_r. }
+    pose proof (pi_h _ _ _ _ _ HP eq_refl dst Hin) as Hch. rewrite Hl0, <- app_comm_cons in Hch.
+    apply chain_head in Hch as (j & Hlo & Hj & Hch).
+    destruct (Hcommon j Hlo (chain_le _ _ _ _ Hch) Hj) as (C1 & C2 & C3 & C4 & C5).
+    exists (upd pos dst j). split; rewrite ?Hcn; try assumption; try (intros; exfalso; congruence).
+    intros _ c Hc. rewrite Hlk, Hout. destruct (decide ((host, c) = (host, dst))) as [Heq|Hne].
+    + inversion Heq; subst c. rewrite upd_eq. exact Hch.
+    + rewrite upd_ne by congruence. apply (pi_h _ _ _ _ _ HP); auto.
+  - (* writer = client w, w -> host *)
+    pose proof (pi_k1 _ _ _ _ _ HP Hwh) as Hch. rewrite Hl0, <- app_comm_cons in Hch.
+    apply chain_head in Hch as (j & Hlo & Hj & Hch).
+    destruct (Hcommon j Hlo (chain_le _ _ _ _ Hch) Hj) as (C1 & C2 & C3 & C4 & C5).
+    exists (upd pos host j). split; rewrite ?Hcn; try assumption; try (intros; exfalso; congruence).
+    + intros _. rewrite upd_eq, Hout.
+      assert (Hlw : link s' w host = rest).
+      { destruct Hcase as [(_ & _ & Hl)|(_ & _ & Hl)]; rewrite Hl;
+          (destruct (decide ((w, host) = (w, host))) as [_|Hn]; [|congruence]); [reflexivity|].
+        destruct (decide (host = host /\ w = host /\ _)) as [(_ & E & _)|_]; [congruence|]. apply app_nil_r. }
+      rewrite Hlw. exact Hch.
+    + intros _ c Hc Hcw. assert (Hch0 : c <> host) by (intros ->; apply (wf_host s Hwf Hc)).
+      rewrite upd_eq, upd_ne by exact Hch0.
+      pose proof (chain_hi _ _ _ _ j Hlo (pi_k2 _ _ _ _ _ HP Hwh c Hc Hcw)) as H2.
+      destruct Hcase as [(_ & _ & Hl)|(_ & _ & Hl)]; rewrite Hl;
+        (destruct (decide ((host, c) = (w, host))) as [Heq|_]; [inversion Heq; congruence|]); [exact H2|].
+      destruct (decide (host = host /\ host = host /\ c ∈ others w (vconn s))) as [_|Hn].
+      * apply chain_snoc; assumption.
+      * rewrite app_nil_r. exact H2.
+  - (* writer = client w, host -> another client dst *)
+    assert (Hdh : dst <> host) by (intros ->; apply (wf_host s Hwf Hin)).
+    assert (Hlk : forall a b, link s' a b = if decide ((a, b) = (host, dst)) then rest else link s a b).
+    { intros a b. destruct Hcase as [(_ & _ & Hl)|(_ & _ & Hl)]; rewrite Hl; [reflexivity|].
+      destruct (decide (dst = host /\ _)) as [[E _]|_]; [contradiction|]. apply app_nil_r. }
+    pose proof (pi_k2 _ _ _ _ _ HP Hwh dst Hin Hdw) as Hch. rewrite Hl0 in Hch.
+    apply chain_head in Hch as (j & Hlo & Hj & Hch).
+    assert (Hjh : (j <= length W)%nat) by (pose proof (chain_le _ _ _ _ Hch); pose proof (pi_le _ _ _ _ _ HP host); lia).
+    destruct (Hcommon j Hlo Hjh Hj) as (C1 & C2 & C3 & C4 & C5).
+    exists (upd pos dst j). split; rewrite ?Hcn; try assumption; try (intros; exfalso; congruence).
+    + intros _. rewrite Hlk, Hout, upd_ne by congruence.
+      destruct (decide ((w, host) = (host, dst))) as [Heq|_]; [inversion Heq; congruence|].
+      apply (pi_k1 _ _ _ _ _ HP Hwh).
+    + intros _ c Hc Hcw. rewrite Hlk, (upd_ne _ _ _ host) by congruence.
+      destruct (decide ((host, c) = (host, dst))) as [Heq|Hne].
+      * inversion Heq; subst c. rewrite upd_eq. exact Hch.
+      * rewrite upd_ne by congruence. apply (pi_k2 _ _ _ _ _ HP); auto.
+Qed.
+
+Definition PosInv (w : peer) (W : list value) (D : peer -> list value) (s : vstate) : Prop :=
+  exists pos, PosI w W D s pos.
+
+Lemma PosI_ext w W D D' s pos : (forall p, D' p = D p) -> PosI w W D s pos -> PosI w W D' s pos.
+Proof.
+  intros He HP. split; try apply HP. intros p Hne. rewrite He. apply (pi_disp _ _ _ _ _ HP), Hne.
+Qed.
+
+Lemma only_writer_cons w e tr : only_writer w (e :: tr) -> writes_by w e /\ only_writer w tr.
+Proof.
+  unfold only_writer. destruct e; simpl; try (intros H; split; [exact I|exact H]).
+  intros H. apply Forall_cons in H. exact H.
+Qed.
+
+Lemma C10_general w tr : forall W D s s',
+  vwf s -> Phase w s -> PosInv w W D s -> only_writer w tr ->
+  (w = host -> joins_clean s tr = true) -> vrun s tr = Some s' ->
+  vwf s' /\ Phase w s' /\ PosInv w (W ++ written tr) (fun p => D p ++ displayed p s tr) s'.
+Proof.
+  induction tr as [|e tr IH]; intros W D s s' Hwf Hph [pos HP] How Hjc Hrun.
+  - simpl in Hrun. inversion Hrun; subst. split; [exact Hwf|]. split; [exact Hph|].
+    exists pos. cbn [written omap displayed]. rewrite app_nil_r.
+    eapply PosI_ext; [|exact HP]. intros p. apply app_nil_r.
+  - cbn [vrun] in Hrun. destruct (vstep s e) as [s1|] eqn:Hstep; [|discriminate].
+    apply only_writer_cons in How as [Hwe How].
+    pose proof (step_wf _ _ _ Hwf Hstep) as Hwf1.
+    pose proof (phase_step _ _ _ _ Hwf Hph Hwe Hstep) as Hph1.
+    assert (Hjc1 : w = host -> joins_clean s1 tr = true).
+    { intros Hwh. specialize (Hjc Hwh). cbn [joins_clean] in Hjc. rewrite Hstep in Hjc.
+      destruct e; try exact Hjc. apply andb_prop in Hjc. apply Hjc. }
+    assert (Hstep1 : exists W1, W ++ written (e :: tr) = W1 ++ written tr /\
+                                PosInv w W1 (fun p => D p ++ delta p s s1) s1).
+    { destruct e as [p v|p|p|src dst|c].
+      - simpl in Hwe. subst p. exists (W ++ [v]). split.
+        + change (written (VWrite w v :: tr)) with (v :: written tr). rewrite <- app_assoc. reflexivity.
+        + eexists. eapply pos_write; eauto.
+      - exists W. split; [reflexivity|]. exists pos. eapply pos_detect; eauto.
+      - exists W. split; [reflexivity|]. exists pos. eapply pos_send; eauto.
+      - exists W. split; [reflexivity|]. eapply pos_deliver; eauto.
+      - exists W. split; [reflexivity|]. exists pos. eapply pos_join; eauto.
+        intros Hwh. specialize (Hjc Hwh). cbn [joins_clean] in Hjc. rewrite Hstep in Hjc.
+        apply andb_prop in Hjc as [Hjc _]. apply bool_decide_eq_true in Hjc. exact Hjc. }
+    destruct Hstep1 as (W1 & HW & HP1).
+    destruct (IH W1 _ s1 s' Hwf1 Hph1 HP1 How Hjc1 Hrun) as (Hwf' & Hph' & [pos' HP']).
+    split; [exact Hwf'|]. split; [exact Hph'|]. exists pos'. rewrite HW.
+    eapply PosI_ext; [|exact HP']. intros p. cbn [displayed]. rewrite Hstep. fold (delta p s s1). apply app_assoc.
+Qed.
+
+Lemma phase_init w n : Phase w (vinit n).
+Proof.
+  split; [apply quiescent_disc, vinit_quiescent|].
+  assert (Hc : forall p, pcur (vinit n) p = None) by (intros; unfold pcur; rewrite vinit_getp; reflexivity).
+  assert (Ho : forall p, poutq (vinit n) p = []) by (intros; unfold poutq; rewrite vinit_getp; reflexivity).
+  assert (Hd : forall p, pdirty (vinit n) p = false) by (intros; unfold pdirty; rewrite vinit_getp; reflexivity).
+  split; intros; rewrite ?vinit_link, ?Ho, ?Hc; try reflexivity. rewrite Hd in *. discriminate.
+Qed.
+
+Lemma posinv_init w n : PosInv w [] (fun _ => []) (vinit n).
+Proof.
+  assert (Ho : forall p, poutq (vinit n) p = []) by (intros; unfold poutq; rewrite vinit_getp; reflexivity).
+  exists (fun _ => O). split; intros; rewrite ?vinit_link, ?Ho; simpl; try reflexivity; try (apply chain_nil; lia).
+  unfold pcur. rewrite vinit_getp. reflexivity.
+Qed.
+
+Lemma only_writer_app w tr1 tr2 : only_writer w (tr1 ++ tr2) -> only_writer w tr1.
+Proof.
+  unfold only_writer, writers. rewrite omap_app. intros H. apply Forall_app in H. apply H.
+Qed.
+Lemma joins_clean_prefix s tr1 tr2 : joins_clean s (tr1 ++ tr2) = true -> joins_clean s tr1 = true.
+Proof.
+  revert s. induction tr1 as [|e tr1 IH]; intros s H; [reflexivity|].
+  cbn [app joins_clean] in *. destruct (vstep s e) as [s1|]; [|reflexivity].
+  destruct e; try (eapply IH; exact H).
+  apply andb_prop in H as [H1 H2]. rewrite H1. simpl. eapply IH; exact H2.
+Qed.
+Lemma written_app tr1 tr2 : written (tr1 ++ tr2) = written tr1 ++ written tr2.
+Proof. apply omap_app. Qed.
+
+(* C10, order and provenance.  [displayed p (vinit n) tr] lists the CHANGES of p's value; being a
+   sublist of [written tr] means: there is a strictly increasing map from the displayed changes to
+   positions in [written tr] (see [sublist_positions]): no invented value, an older write never
+   reappears after a newer one was shown, coalesced writes are simply skipped.  Holds for clients
+   reached through the host's relay as well.  When the writer is the host, joins must happen while
+   the host's announcement queue is empty ([joins_clean]; see [C10_host_join_refuted]). *)
+Theorem C10_single_writer n w tr s' :
+  vrun (vinit n) tr = Some s' -> only_writer w tr ->
+  (w = host -> joins_clean (vinit n) tr = true) ->
+  (forall p v, pcur s' p = Some v -> v ∈ written tr) /\
+  (forall p, p <> w -> displayed p (vinit n) tr `sublist_of` written tr).
+Proof.
+  intros Hrun How Hjc.
+  destruct (C10_general w tr [] (fun _ => []) (vinit n) s' (vinit_wf n) (phase_init w n) (posinv_init w n) How Hjc Hrun)
+    as (_ & _ & pos & HP).
+  simpl in HP. split.
+  - intros p v Hv. rewrite (pi_cur _ _ _ _ _ HP) in Hv. eapply at_elem; eauto.
+  - intros p Hne. etransitivity; [apply (pi_disp _ _ _ _ _ HP p Hne)|]. apply sublist_take.
+Qed.
+Print Assumptions C10_single_writer.
+
+Corollary C10_client_writer n w tr s' :
+  vrun (vinit n) tr = Some s' -> only_writer w tr -> w <> host ->
+  (forall p v, pcur s' p = Some v -> v ∈ written tr) /\
+  (forall p, p <> w -> displayed p (vinit n) tr `sublist_of` written tr).
+Proof. intros Hrun How Hw. eapply C10_single_writer; eauto; intros; contradiction. Qed.
+
+(* ... at every prefix: what p shows at any moment was written BEFORE that moment *)
+Corollary C10_every_prefix n w tr1 tr2 s1 :
+  only_writer w (tr1 ++ tr2) -> (w = host -> joins_clean (vinit n) (tr1 ++ tr2) = true) ->
+  vrun (vinit n) tr1 = Some s1 ->
+  (forall p v, pcur s1 p = Some v -> v ∈ written tr1) /\
+  (forall p, p <> w -> displayed p (vinit n) tr1 `sublist_of` written tr1).
+Proof.
+  intros How Hjc Hrun. eapply C10_single_writer; eauto.
+  - eapply only_writer_app; eauto.
+  - intros Hwh. eapply joins_clean_prefix; eauto.
+Qed.
+Print Assumptions C10_every_prefix.
+
+(* the monotone map behind "sublist" *)
+Lemma sublist_positions (l1 l2 : list value) :
+  l1 `sublist_of` l2 ->
+  exists js : list nat, length js = length l1 /\
+    (forall i j v, js !! i = Some j -> l1 !! i = Some v -> l2 !! j = Some v) /\
+    (forall i i' j j', (i < i')%nat -> js !! i = Some j -> js !! i' = Some j' -> (j < j')%nat).
+Proof.
+  induction 1 as [|x l1 l2 Hs (js & Hlen & Hval & Hmono)|x l1 l2 Hs (js & Hlen & Hval & Hmono)].
+  - exists []. split; [reflexivity|]. split; intros; rewrite lookup_nil in *; discriminate.
+  - exists (O :: (S <$> js)). split; [simpl; rewrite fmap_length, Hlen; reflexivity|]. split.
+    + intros [|i] j v Hj Hv; simpl in *.
+      * inversion Hj; subst. exact Hv.
+      * rewrite list_lookup_fmap in Hj. destruct (js !! i) as [j0|] eqn:E; [|discriminate].
+        simpl in Hj. inversion Hj; subst. simpl. eapply Hval; eauto.
+    + intros i i' j j' Hlt Hj Hj'. destruct i' as [|i']; [lia|]. simpl in Hj'.
+      rewrite list_lookup_fmap in Hj'. destruct (js !! i') as [j0'|] eqn:E'; [|discriminate].
+      simpl in Hj'. inversion Hj'; subst. destruct i as [|i]; simpl in Hj.
+      * inversion Hj; subst. lia.
+      * rewrite list_lookup_fmap in Hj. destruct (js !! i) as [j0|] eqn:E; [|discriminate].
+        simpl in Hj. inversion Hj; subst. assert (j0 < j0')%nat by (eapply Hmono; [|exact E|exact E']; lia). lia.
+  - exists (S <$> js). split; [rewrite fmap_length; exact Hlen|]. split.
+    + intros i j v Hj Hv. rewrite list_lookup_fmap in Hj. destruct (js !! i) as [j0|] eqn:E; [|discriminate].
+      simpl in Hj. inversion Hj; subst. simpl. eapply Hval; eauto.
+    + intros i i' j j' Hlt Hj Hj'. rewrite list_lookup_fmap in Hj, Hj'.
+      destruct (js !! i) as [j0|] eqn:E; [|discriminate]. destruct (js !! i') as [j0'|] eqn:E'; [|discriminate].
+      simpl in *. inversion Hj; inversion Hj'; subst. assert (j0 < j0')%nat by (eapply Hmono; eauto). lia.
+Qed.
+
+Lemma phase_run w tr : forall s s',
+  vwf s -> Phase w s -> only_writer w tr -> vrun s tr = Some s' ->
+  vwf s' /\ Phase w s' /\ pcur s' w = lastd (pcur s w) (written tr).
+Proof.
+  induction tr as [|e tr IH]; intros s s' Hwf Hph How Hrun.
+  - simpl in Hrun. inversion Hrun; subst. auto.
+  - cbn [vrun] in Hrun. destruct (vstep s e) as [s1|] eqn:Hstep; [|discriminate].
+    apply only_writer_cons in How as [Hwe How].
+    pose proof (step_wf _ _ _ Hwf Hstep) as Hwf1.
+    pose proof (phase_step _ _ _ _ Hwf Hph Hwe Hstep) as Hph1.
+    destruct (IH s1 s' Hwf1 Hph1 How Hrun) as (Hwf' & Hph' & Hc).
+    split; [exact Hwf'|]. split; [exact Hph'|]. rewrite Hc.
+    destruct e as [p v|p|p|src dst|c].
+    + simpl in Hwe. subst p. change (written (VWrite w v :: tr)) with (v :: written tr). rewrite lastd_cons.
+      apply step_write in Hstep as (_ & _ & _ & _ & Hp & _). unfold pcur at 1. rewrite Hp. reflexivity.
+    + change (written (VDetect p :: tr)) with (written tr). f_equal.
+      eapply phase_cur_w; [exact Hwf|exact (proj1 Hph)| |exact Hstep]; exact I.
+    + change (written (VSend p :: tr)) with (written tr). f_equal.
+      eapply phase_cur_w; [exact Hwf|exact (proj1 Hph)| |exact Hstep]; exact I.
+    + change (written (VDeliver src dst :: tr)) with (written tr). f_equal.
+      eapply phase_cur_w; [exact Hwf|exact (proj1 Hph)| |exact Hstep]; exact I.
+    + change (written (VJoin c :: tr)) with (written tr). f_equal.
+      eapply phase_cur_w; [exact Hwf|exact (proj1 Hph)| |exact Hstep]; exact I.
+Qed.
+
+(* C10, liveness half: once everything has drained, every peer shows the writer's last value.
+   No restriction on joins, the writer may itself be a late joiner, any n, any interleaving. *)
+Theorem C10_ends_with_last n w tr s' :
+  vrun (vinit n) tr = Some s' -> only_writer w tr -> vquiescent s' ->
+  forall p, peers s' p -> pcur s' p = last (written tr).
+Proof.
+  intros Hrun How Hq p Hp.
+  destruct (phase_run w tr (vinit n) s' (vinit_wf n) (phase_init w n) How Hrun) as (_ & Hph & Hc).
+  rewrite (phase_quiescent_agree w s' Hq Hph p Hp), Hc. unfold pcur. rewrite vinit_getp. apply lastd_None_last.
+Qed.
+Print Assumptions C10_ends_with_last.
+
+(* "the host relays only if the value differs from its own" loses nothing: at all times the last
+   value in a client's pipeline (or its current value if the pipeline is empty) is the host's value *)
+Theorem relay_loses_nothing n w tr s' :
+  vrun (vinit n) tr = Some s' -> only_writer w tr -> w <> host ->
+  forall c, c ∈ vconn s' -> c <> w -> lastd (pcur s' c) (link s' host c) = pcur s' host.
+Proof.
+  intros Hrun How Hwh c Hc Hcw.
+  destruct (phase_run w tr (vinit n) s' (vinit_wf n) (phase_init w n) How Hrun) as (_ & [_ HC] & _).
+  apply (conv_k2 _ _ HC); assumption.
+Qed.
+
+(* the writer never gets its own updates back, and nobody else ever announces anything *)
+Theorem single_writer_discipline n w tr s' :
+  vrun (vinit n) tr = Some s' -> only_writer w tr ->
+  ptoken s' w = false /\ (forall c, link s' c w = []) /\
+  (forall p, p <> w -> pdirty s' p = false /\ poutq s' p = []) /\
+  (forall c, c <> w -> link s' c host = []).
+Proof.
+  intros Hrun How.
+  destruct (phase_run w tr (vinit n) s' (vinit_wf n) (phase_init w n) How Hrun) as (_ & [HD _] & _).
+  destruct HD; auto.
+Qed.
+
+(* non-vacuity: the burst example is a single-writer trace; a, b, a with a coalesced write *)
+Example C10_nonvacuous :
+  only_writer 1 ex_burst /\ displayed 2 (vinit 2) ex_burst = [10; 20; 30] /\ written ex_burst = [10; 20; 30] /\
+  (fun s => view s [0; 1; 2]) <$> vrun (vinit 2) ex_burst = Some ([Some 30; Some 30; Some 30], true).
+Proof. split; [|vm_compute; auto]. unfold only_writer. vm_compute. repeat constructor. Qed.
+
+Definition ex_aba : list vevent :=
+  [VWrite 1 10; VDetect 1; VSend 1; VDeliver 1 0; VDeliver 0 2;
+   VWrite 1 20; VWrite 1 10; VDetect 1; VSend 1; VDeliver 1 0;     (* 20 is coalesced away; host already shows 10: no relay *)
+   VWrite 1 20; VDetect 1; VSend 1; VWrite 1 10; VDetect 1; VSend 1;
+   VDeliver 1 0; VDeliver 1 0; VDeliver 0 2; VDeliver 0 2; VDetect 0; VDetect 2].
+Example C10_aba_example :
+  written ex_aba = [10; 20; 10; 20; 10] /\ displayed 2 (vinit 2) ex_aba = [10; 20; 10] /\
+  displayed 0 (vinit 2) ex_aba = [10; 20; 10] /\
+  (fun s => view s [0; 1; 2]) <$> vrun (vinit 2) ex_aba = Some ([Some 10; Some 10; Some 10], true).
+Proof. vm_compute. auto. Qed.
+
+(* REFUTED as stated for a host writer with unrestricted joins: the host detects a (queued), writes b,
+   a client joins and gets the snapshot b, THEN the queued a is broadcast: the new client shows b, a, (b). *)
+Definition ex_host_join : list vevent :=
+  [VWrite 0 10; VDetect 0; VWrite 0 20; VJoin 1; VSend 0; VDeliver 0 1; VDeliver 0 1;
+   VDetect 0; VSend 0; VDeliver 0 1; VDetect 1].
+Theorem C10_host_join_refuted :
+  exists n w tr s' p,
+    vrun (vinit n) tr = Some s' /\ only_writer w tr /\ p <> w /\
+    ~ displayed p (vinit n) tr `sublist_of` written tr.
+Proof.
+  exists 0%nat, 0, ex_host_join.
+  destruct (vrun (vinit 0) ex_host_join) as [s'|] eqn:Hrun; [|vm_compute in Hrun; discriminate].
+  exists s', 1. split; [reflexivity|]. split; [unfold only_writer; vm_compute; repeat constructor|].
+  split; [discriminate|].
+  assert (Hd : displayed 1 (vinit 0) ex_host_join = [20; 10; 20]) by (vm_compute; reflexivity).
+  assert (Hw : written ex_host_join = [10; 20]) by (vm_compute; reflexivity).
+  rewrite Hd, Hw. intros H. apply sublist_length in H. simpl in H. lia.
+Qed.
+Example C10_host_join_still_converges :
+  joins_clean (vinit 0) ex_host_join = false /\
+  (fun s => view s [0; 1]) <$> vrun (vinit 0) ex_host_join = Some ([Some 20; Some 20], true).
+Proof. vm_compute. auto. Qed.
+
+(* ================================================================================================
+   Part 7: joins
+   ================================================================================================ *)
+
+Lemma peers_run s tr s' p : vrun s tr = Some s' -> peers s p -> peers s' p.
+Proof.
+  revert s. induction tr as [|e tr IH]; intros s Hrun Hp; simpl in Hrun.
+  - inversion Hrun; subst. exact Hp.
+  - destruct (vstep s e) as [s1|] eqn:Hs; [|discriminate]. eapply IH; [exact Hrun|]. eapply peers_step; eauto.
+Qed.
+
+Lemma joined_connected s tr1 c tr2 s' :
+  vrun s (tr1 ++ VJoin c :: tr2) = Some s' -> c <> host /\ c ∈ vconn s'.
+Proof.
+  rewrite vrun_app. destruct (vrun s tr1) as [s1|]; [|discriminate]. cbn [vrun].
+  destruct (vstep s1 (VJoin c)) as [s2|] eqn:Hj; [|discriminate]. intros Hrun.
+  apply step_join in Hj as (Hch & _ & _ & Hcn & _). split; [exact Hch|].
+  assert (Hp : peers s2 c) by (right; rewrite Hcn; apply elem_of_app; right; apply elem_of_list_singleton; reflexivity).
+  destruct (peers_run _ _ _ _ Hrun Hp) as [?|?]; [contradiction|assumption].
+Qed.
+
+(* a client joining at ANY moment -- also while updates are in flight -- ends, at quiescence, with the
+   host's value, which is the most recent write *)
+Theorem join_gets_current_value n w tr1 c tr2 s' :
+  let tr := tr1 ++ VJoin c :: tr2 in
+  vrun (vinit n) tr = Some s' -> only_writer w tr -> vquiescent s' ->
+  c ∈ vconn s' /\ pcur s' c = pcur s' host /\ pcur s' c = last (written tr).
+Proof.
+  intros tr Hrun How Hq. destruct (joined_connected _ _ _ _ _ Hrun) as [Hch Hc].
+  split; [exact Hc|].
+  rewrite (C10_ends_with_last n w tr s' Hrun How Hq c (or_intror Hc)).
+  rewrite (C10_ends_with_last n w tr s' Hrun How Hq host (or_introl eq_refl)). auto.
+Qed.
+Print Assumptions join_gets_current_value.
+
+Theorem join_gets_current_value_drain_separated n tr1 c tr2 s' :
+  let tr := tr1 ++ VJoin c :: tr2 in
+  vrun (vinit n) tr = Some s' -> drain_separated (vinit n) tr -> joiners_settled (vinit n) tr -> vquiescent s' ->
+  c ∈ vconn s' /\ pcur s' c = pcur s' host /\ pcur s' c = last (written tr).
+Proof.
+  intros tr Hrun Hds Hjs Hq. destruct (joined_connected _ _ _ _ _ Hrun) as [Hch Hc].
+  split; [exact Hc|].
+  rewrite (C02_values_converge n tr s' Hrun Hds Hjs Hq c (or_intror Hc)).
+  rewrite (C02_values_converge n tr s' Hrun Hds Hjs Hq host (or_introl eq_refl)). auto.
+Qed.
+Print Assumptions join_gets_current_value_drain_separated.
+
+Example join_nonvacuous :
+  let tr := [VWrite 1 10; VDetect 1; VSend 1; VDeliver 1 0; VWrite 1 20; VDetect 1; VSend 1] ++ VJoin 3 ::
+            [VDeliver 1 0; VDeliver 0 3; VDeliver 0 3; VDeliver 0 2; VDeliver 0 2; VDetect 0; VDetect 2; VDetect 3] in
+  only_writer 1 tr /\ displayed 3 (vinit 2) tr = [10; 20] /\
+  (fun s => view s [0; 1; 2; 3]) <$> vrun (vinit 2) tr = Some ([Some 20; Some 20; Some 20; Some 20], true).
+Proof. split; [|vm_compute; auto]. unfold only_writer. vm_compute. repeat constructor. Qed.
+
+(* ================================================================================================
+   Part 8: traffic (C09)
+   ================================================================================================ *)
+
+(* from a quiescent state nothing but a VWrite or a VJoin changes anything *)
+Theorem quiescent_is_stable s :
+  vquiescent s ->
+  (forall p s', vstep s (VDetect p) = Some s' -> s' = s) /\
+  (forall p s', vstep s (VSend p) = Some s' -> s' = s) /\
+  (forall a b, vstep s (VDeliver a b) = None).
+Proof.
+  intros Hq. split; [|split].
+  - intros p s'. simpl. destruct (vp s !! p) as [x|] eqn:Hx; [|discriminate].
+    destruct Hq as [_ Hq]. destruct (Hq p x Hx) as (_ & -> & ->). simpl. congruence.
+  - intros p s'. simpl. destruct (vp s !! p) as [x|] eqn:Hx; [|discriminate].
+    destruct Hq as [_ Hq]. destruct (Hq p x Hx) as (-> & _ & _). congruence.
+  - intros a b. simpl. rewrite (quiescent_link s a b Hq). reflexivity.
+Qed.
+Print Assumptions quiescent_is_stable.
+
+(* potential: the messages the writer's pending work can still cause *)
+Definition phi (w : peer) (s : vstate) : nat :=
+  let N := length (vconn s) in
+  (if pdirty s w then N else 0)%nat + length (poutq s w) * N +
+  (if decide (w = host) then 0 else length (link s w host) * (N - 1))%nat.
+
+Definition plain (e : vevent) : Prop :=
+  match e with VDetect _ | VSend _ | VDeliver _ _ => True | _ => False end.
+
+Lemma detect'_outq_len x : (length (outq (detect' x)) <= length (outq x) + (if dirty x then 1 else 0))%nat.
+Proof.
+  unfold detect', vdetect. destruct (dirty x), (token x); simpl; try lia.
+  rewrite app_length. destruct (cur x); simpl; lia.
+Qed.
+Lemma detect'_not_dirty x : dirty (detect' x) = true -> False.
+Proof. unfold detect', vdetect. destruct (dirty x) eqn:Hd, (token x); simpl; congruence. Qed.
+
+Lemma traffic_step w s e s' :
+  vwf s -> Disc w s -> plain e -> vstep s e = Some s' ->
+  vconn s' = vconn s /\ (sent_by s e + phi w s' <= phi w s)%nat.
+Proof.
+  intros Hwf HD Hpl Hstep. destruct e as [p v|p|p|src dst|c]; simpl in Hpl; try contradiction.
+  - (* detect *)
+    apply step_detect in Hstep as (_ & Hcn & Hl & _ & Hp & Hq). split; [exact Hcn|].
+    unfold phi, link. rewrite Hcn, Hl. simpl sent_by.
+    destruct (decide (p = w)) as [->|Hne].
+    + unfold pdirty, poutq. rewrite Hp. pose proof (detect'_outq_len (getp s w)) as Hlen.
+      destruct (dirty (detect' (getp s w))) eqn:Hd'; [exfalso; eapply detect'_not_dirty; eauto|].
+      destruct (dirty (getp s w)); nia.
+    + unfold pdirty, poutq. rewrite Hq by congruence. lia.
+  - (* send *)
+    pose proof Hstep as Hstep0.
+    apply step_send in Hstep as (Hex & Hcn & _ & Hp & Hq & Hl); [|apply wf_nodup, Hwf]. split; [exact Hcn|].
+    unfold phi. rewrite Hcn. simpl sent_by.
+    destruct (decide (p = w)) as [->|Hne].
+    + unfold pdirty at 1. unfold poutq at 2. rewrite Hp. simpl. fold (pdirty s w). rewrite Hl.
+      destruct (decide (w = host)) as [->|Hwh].
+      * change (host =? host)%N with true. cbv iota. destruct (pdirty s host); lia.
+      * destruct (w =? host)%N eqn:E; [apply N.eqb_eq in E; contradiction|].
+        destruct (decide (w = w /\ host ∈ dsts_of s w)) as [_|Hn].
+        -- rewrite app_length.
+           assert (Hin : w ∈ vconn s). { apply (wf_exists s w Hwf) in Hex as [?|?]; [contradiction|assumption]. }
+           assert (length (vconn s) >= 1)%nat by (destruct (vconn s); [inversion Hin|simpl; lia]).
+           destruct (pdirty s w); nia.
+        -- exfalso. apply Hn. split; [reflexivity|]. unfold dsts_of. rewrite E. apply elem_of_list_singleton. reflexivity.
+    + destruct (disc_idle _ _ HD p Hne) as [_ Ho]. rewrite Hl, Ho, app_nil_r. simpl.
+      destruct (decide (w = p /\ _)) as [[E _]|_]; [congruence|].
+      unfold pdirty, poutq. rewrite Hq by congruence. lia.
+  - (* deliver *)
+    apply step_deliver in Hstep as (v & rest & Hl0 & _ & Hcn & _ & Hq & Hcase); [|apply wf_nodup, Hwf].
+    split; [exact Hcn|].
+    assert (Hne0 : link s src dst <> []) by (rewrite Hl0; discriminate).
+    destruct (deliver_shape w s src dst Hwf HD Hne0) as [Hdw Hshape].
+    unfold phi. rewrite Hcn. unfold pdirty, poutq. rewrite Hq by congruence. fold (pdirty s w). fold (poutq s w).
+    simpl sent_by. rewrite Hl0.
+    destruct Hshape as [(-> & -> & Hin)|[(Hwh & -> & ->)|(Hwh & -> & Hin)]].
+    + destruct (dst =? host)%N eqn:E; [apply N.eqb_eq in E; congruence|].
+      destruct (decide (host = host)) as [_|?]; [|congruence]. destruct (bool_decide _); lia.
+    + destruct (decide (w = host)) as [?|_]; [contradiction|].
+      assert (Hwin : w ∈ vconn s).
+      { destruct (wf_link s w host Hwf Hne0) as [[? _]|[_ ?]]; [contradiction|assumption]. }
+      assert (Hoth : (length (others w (vconn s)) < length (vconn s))%nat).
+      { unfold others. eapply filter_length_lt; [exact Hwin|]. intros H. apply H. reflexivity. }
+      change (host =? host)%N with true. cbv iota.
+      assert (Hlw : length (link s' w host) = length rest).
+      { destruct Hcase as [(_ & _ & Hl)|(_ & _ & Hl)]; rewrite Hl;
+          (destruct (decide ((w, host) = (w, host))) as [_|Hn]; [|congruence]); [reflexivity|].
+        destruct (decide (host = host /\ w = host /\ _)) as [(_ & E & _)|_]; [congruence|]. rewrite app_nil_r. reflexivity. }
+      rewrite Hlw, Hl0. simpl length. destruct (bool_decide _); nia.
+    + assert (Hdh : dst <> host) by (intros ->; apply (wf_host s Hwf Hin)).
+      destruct (dst =? host)%N eqn:E; [apply N.eqb_eq in E; congruence|].
+      destruct (decide (w = host)) as [?|_]; [contradiction|].
+      assert (Hlw : link s' w host = link s w host).
+      { destruct Hcase as [(_ & _ & Hl)|(_ & _ & Hl)]; rewrite Hl;
+          (destruct (decide ((w, host) = (host, dst))) as [Heq|_]; [inversion Heq; congruence|]); [reflexivity|].
+        destruct (decide (dst = host /\ _)) as [[? _]|_]; [contradiction|]. apply app_nil_r. }
+      rewrite Hlw. destruct (bool_decide _); lia.
+Qed.
+
+Definition tr_ok (w : peer) (tr : list vevent) : Prop := Forall (fun e => plain e \/ exists v, e = VWrite w v) tr.
+
+Lemma traffic_run w tr : forall s s',
+  vwf s -> Disc w s -> tr_ok w tr -> vrun s tr = Some s' ->
+  vconn s' = vconn s /\ (total_sent s tr + phi w s' <= phi w s + length (written tr) * length (vconn s))%nat.
+Proof.
+  induction tr as [|e tr IH]; intros s s' Hwf HD Hok Hrun.
+  - simpl in Hrun. inversion Hrun; subst. simpl. split; [reflexivity|lia].
+  - cbn [vrun] in Hrun. cbn [total_sent]. destruct (vstep s e) as [s1|] eqn:Hstep; [|discriminate].
+    apply Forall_cons in Hok as [He Hok].
+    pose proof (step_wf _ _ _ Hwf Hstep) as Hwf1.
+    assert (HD1 : Disc w s1).
+    { eapply disc_step; [exact Hwf|exact HD| |exact Hstep]. destruct He as [He|[v ->]]; [|reflexivity].
+      destruct e; simpl in *; auto; contradiction. }
+    destruct (IH s1 s' Hwf1 HD1 Hok Hrun) as [Hcn IHle].
+    destruct He as [He|[v ->]].
+    + destruct (traffic_step w s e s1 Hwf HD He Hstep) as [Hcn1 Hle].
+      assert (Hw : written (e :: tr) = written tr) by (destruct e; simpl in He; try contradiction; reflexivity).
+      rewrite Hw. rewrite Hcn1 in *. split; [exact Hcn|]. lia.
+    + change (written (VWrite w v :: tr)) with (v :: written tr). simpl length. simpl sent_by.
+      apply step_write in Hstep as (_ & Hcn1 & Hl & _ & Hp & _).
+      assert (Hphi : (phi w s1 <= phi w s + length (vconn s))%nat).
+      { unfold phi, link. rewrite Hcn1, Hl. unfold pdirty at 1. unfold poutq at 1. rewrite Hp. simpl.
+        fold (poutq s w). destruct (pdirty s w); lia. }
+      rewrite Hcn1 in *. split; [exact Hcn|]. lia.
+Qed.
+
+Lemma phi_quiescent w s : vquiescent s -> phi w s = O.
+Proof.
+  intros Hq. unfold phi. destruct (quiescent_peer s w Hq) as (-> & -> & _). rewrite (quiescent_link s w host Hq).
+  simpl. destruct (decide (w = host)); lia.
+Qed.
+
+(* one write from a quiescent state causes at most |vconn| messages in total, relays included, whatever
+   the interleaving of detections, sends and deliveries that follows *)
+Theorem value_messages_bounded s w v rest s' :
+  vwf s -> vquiescent s -> Forall plain rest ->
+  vrun s (VWrite w v :: rest) = Some s' ->
+  (total_sent s (VWrite w v :: rest) <= length (vconn s))%nat.
+Proof.
+  intros Hwf Hq Hpl Hrun.
+  assert (Hok : tr_ok w (VWrite w v :: rest)).
+  { apply Forall_cons. split; [right; eauto|]. eapply Forall_impl; [exact Hpl|]. intros e He. left. exact He. }
+  destruct (traffic_run w _ s s' Hwf (quiescent_disc w s Hq) Hok Hrun) as [_ Hle].
+  rewrite (phi_quiescent w s Hq) in Hle.
+  change (written (VWrite w v :: rest)) with (v :: written rest) in Hle.
+  assert (Hr : written rest = []).
+  { clear -Hpl. induction Hpl as [|e rest He _ IH]; [reflexivity|]. destruct e; simpl in He; try contradiction; exact IH. }
+  rewrite Hr in Hle. cbn [length] in Hle. lia.
+Qed.
+Print Assumptions value_messages_bounded.
+
+(* k writes of a single writer cause at most k * n messages, for any interleaving *)
+Theorem value_messages_bounded_run n w tr s' :
+  vrun (vinit n) tr = Some s' -> tr_ok w tr ->
+  (total_sent (vinit n) tr <= length (written tr) * n)%nat.
+Proof.
+  intros Hrun Hok.
+  destruct (traffic_run w tr (vinit n) s' (vinit_wf n) (quiescent_disc w _ (vinit_quiescent n)) Hok Hrun) as [_ Hle].
+  rewrite (phi_quiescent w _ (vinit_quiescent n)) in Hle.
+  assert (Hn : length (vconn (vinit n)) = n) by (simpl; unfold clients; rewrite fmap_length, seq_length; reflexivity).
+  rewrite Hn in Hle. lia.
+Qed.
+Print Assumptions value_messages_bounded_run.
+
+(* the bound is reached: a client's write costs 1 + (n-1), the host's write costs n *)
+Example traffic_tight :
+  total_sent (vinit 3) [VWrite 1 10; VDetect 1; VSend 1; VDeliver 1 0; VDeliver 0 2; VDeliver 0 3;
+                        VDetect 0; VDetect 2; VDetect 3] = 3%nat /\
+  total_sent (vinit 3) [VWrite 0 10; VDetect 0; VSend 0; VDeliver 0 1; VDeliver 0 2; VDeliver 0 3;
+                        VDetect 1; VDetect 2; VDetect 3] = 3%nat /\
+  (* re-writing the value the host already shows costs the uplink message only *)
+  total_sent (vinit 3) [VWrite 1 10; VDetect 1; VSend 1; VDeliver 1 0; VDeliver 0 2; VDeliver 0 3;
+                        VDetect 0; VDetect 2; VDetect 3; VWrite 1 10; VDetect 1; VSend 1; VDeliver 1 0] = 4%nat.
+Proof. vm_compute. auto. Qed.
+
+Print Assumptions C02_join_write_refuted.
+Print Assumptions C10_host_join_refuted.
+Print Assumptions relay_loses_nothing.
+Print Assumptions single_writer_discipline.
